@@ -1,521 +1,1531 @@
 """C15 - evaluation is pure and independent of order, history and hash seed.
 
-  C15.R1  the graph is frozen after construction; graph mutators are reachable only from the constructor; all nodes exist before
-          the first import edge is created
-  C15.R2  no long-lived object is written during evaluation (rule objects, the evaluable and its graph, argument lists); one
-          reviewed exception: the idempotent alias rewrite of Rule._configuration
-  C15.R3  unordered (set) iteration never reaches text without `sorted`; no set is both grown and shrunk inside one loop over an
-          unordered collection (iteration-order dependent result)
-  C15.R4  no function writes class-level or module-level state (hidden state shared between scans / evaluations)
+  C15.R1  every class that keeps a networkx graph freezes it at the end of its constructor (decided on the inlined view of the
+          constructor by graph-mutation events: nothing modifies the graph after nx.freeze, which lies on every path to the exit);
+          graph mutators are reachable only from the constructor; every module is registered as a node before the first edge is
+          created from the imports argument
+  C15.R2  nothing reachable from an evaluation entry point (public API: every concrete assert_applies, the query interface of the
+          evaluable architecture) writes to the entry point's receiver, to its arguments or to anything reachable from them; decided
+          by an ownership analysis (c15_roots.py) that knows fresh / owned / handed-in objects, independent of variable and helper
+          names.  One kind of write is accepted: a self-rewrite `self.F = h(self.F)` that is idempotent (rebuilt only under a flag of
+          the old value which the rebuilt value clears) and does not look at the other arguments
+  C15.R3  unordered (set) iteration never reaches text without `sorted`; no container is both grown and shrunk inside one loop over
+          an unordered collection (helpers expanded)
+  C15.R4  no function writes class-level, module-level or escaping-closure state, also not through an alias; no observable cache
+          (memoised functions are accepted only when they are pure functions of immutable arguments with an immutable result)
+  C15.R5  order-independent selection (c15_selection.py): in a loop (for / worklist) over a collection whose order is not part of
+          the contract - a set, a directory listing (iterdir / glob / listdir / scandir / walk), a sequence in the order in which a
+          caller of the public API listed its items - no keep-or-drop decision reads what earlier iterations of the same loop have
+          accumulated, except de-duplication on the element's own identity; a seen-set keyed by a derived value while the element
+          is kept, or any other test against the kept-so-far collection, is reported.  Sorted input and tests against a collection
+          that is complete before the loop are order independent
+
+Anchors are public API names (assert_applies, get_dependencies, ... , the constructor signature (modules, imports, ...)), library
+names (networkx.freeze, DiGraph.add_node / add_edge, dataclasses.replace, functools.lru_cache) and types - never private helpers,
+local names or statement shapes.  R3 and R4 carry positive fixtures (c15_fixtures/) because their expected count on the tree is 0.
 """
 
 from __future__ import annotations
 
 import ast
 
-from core.effects import Effects, Write
+from core.effects import Effects
 from core.flow import Flow, Spec
-from core.guards import atom, conds_formula, f_not, implies
-from core.loader import AnalysisError, FuncInfo, Repo, ancestors, calls_in, header, norm, own_nodes, parent
+from core.guards import atom, implies
+from core.inline_stmt import inline_view
+from core.loader import AnalysisError, FuncInfo, Repo, ancestors, calls_in, header, norm, own_nodes
 from core.report import Result
-from core.types import is_set_type, kind, members
+from core.types import is_set_type, members
 
-from .common import callees_of, cfg_of, conds, dotted, is_attr_call, reachable_funcs, stmt_of, types_of, where
+from .c15_roots import FRESH, EffectSummaries, Roots
+from .common import callees_of, cfg_of, dotted, guard_formula, iter_sources, loops_around, reachable_funcs, stmt_of, types_of, where
 
-NXGRAPH = "pytestarch.eval_structure.networkxgraph"
-EVAL_GRAPH = "pytestarch.eval_structure.evaluable_graph"
-RULE = "pytestarch.query_language.rule"
-LAYER_RULE = "pytestarch.query_language.layered_architecture_rule"
-DIAGRAM_RULE = "pytestarch.diagram_extension.diagram_rule"
-MULTI = "pytestarch.query_language.multiple_rule_applier"
 
 GRAPH_MUTATORS = {"add_node", "add_edge", "add_nodes_from", "add_edges_from", "remove_node", "remove_edge", "remove_nodes_from", "remove_edges_from", "clear", "update", "add_weighted_edges_from", "clear_edges"}
 
 
+QUERY_API = ("get_dependencies", "any_dependencies_from_dependents_to_modules_other_than_dependent_upons", "any_other_dependencies_on_dependent_upons_than_from_dependents", "visualize", "modules")
+
+
+def _stub(f: FuncInfo) -> bool:
+    """Interface declaration: nothing but a docstring, `pass`, `...` or `raise NotImplementedError`."""
+    if f.is_abstract:
+        return True
+    for st in f.node.body:
+        if isinstance(st, ast.Pass) or (isinstance(st, ast.Expr) and isinstance(st.value, ast.Constant)):
+            continue
+        if isinstance(st, ast.Raise) and st.exc is not None and "NotImplementedError" in norm(st.exc):
+            continue
+        return False
+    return True
+
+
 def evaluation_roots(repo: Repo) -> list[FuncInfo]:
-    roots = [
-        repo.func(RULE, "Rule.assert_applies"),
-        repo.func(LAYER_RULE, "LayerRule.assert_applies"),
-        repo.func(DIAGRAM_RULE, "DiagramRule.assert_applies"),
-        repo.func(MULTI, "MultipleRuleApplier.assert_applies"),
-    ]
-    eg = repo.cls(EVAL_GRAPH, "EvaluableArchitectureGraph")
-    for name in ("get_dependencies", "any_dependencies_from_dependents_to_modules_other_than_dependent_upons", "any_other_dependencies_on_dependent_upons_than_from_dependents", "visualize", "modules"):
-        m = eg.methods.get(name)
-        if m is None:
-            raise AnalysisError(f"EvaluableArchitectureGraph.{name} not found")
-        roots.append(m)
+    """Entry points of an evaluation, found by their public names (the API used by tests and docs), wherever the classes live:
+    every concrete `assert_applies`, and every concrete implementation of the query interface of the evaluable architecture."""
+    roots: list[FuncInfo] = []
+    for ci in sorted(repo.classes.values(), key=lambda c: c.fq):
+        m = ci.methods.get("assert_applies")
+        if m is not None and not _stub(m):
+            roots.append(m)
+    if len(roots) < 3:
+        raise AnalysisError(f"only {len(roots)} concrete assert_applies implementation(s) found (Rule, LayerRule, DiagramRule, MultipleRuleApplier expected)")
+    for name in QUERY_API:
+        impls = [ci.methods[name] for ci in sorted(repo.classes.values(), key=lambda c: c.fq) if name in ci.methods and not _stub(ci.methods[name])]
+        if not impls:
+            raise AnalysisError(f"no concrete implementation of the evaluable architecture's `{name}` found")
+        roots += impls
     return roots
 
 
 # --------------------------------------------------------------------------- R1
 
+DIGRAPH = ("lib", "networkx.DiGraph")
+NODE_ADDERS = {"add_node", "add_nodes_from"}
+EDGE_ADDERS = {"add_edge", "add_edges_from", "add_weighted_edges_from"}
+
+
+GRAPH_ONLY = {"add_node", "add_edge", "add_nodes_from", "add_edges_from", "add_weighted_edges_from", "remove_node", "remove_edge", "remove_nodes_from", "remove_edges_from", "clear_edges"}
+
+
+def _is_digraph(T, f: FuncInfo, e: ast.AST) -> bool:
+    try:
+        return any(m == DIGRAPH for m in members(T.expr(f, e)))
+    except Exception:  # noqa: BLE001
+        return False
+
+
+def _graph_call(T, f: FuncInfo, c: ast.Call) -> bool:
+    """`c` is a mutator call on a networkx graph: by the receiver's type, or - for an untyped receiver - by a method name that
+    only graphs have (add_node, add_edge, ...)."""
+    if not (isinstance(c.func, ast.Attribute) and c.func.attr in GRAPH_MUTATORS):
+        return False
+    if _is_digraph(T, f, c.func.value):
+        return True
+    if c.func.attr in GRAPH_ONLY:
+        try:
+            ms = members(T.expr(f, c.func.value))
+        except Exception:  # noqa: BLE001
+            ms = []
+        return all(m == ("unknown",) for m in ms)
+    return False
+
+
+def _through_digraph(T, f: FuncInfo, e: ast.AST) -> bool:
+    """The expression is, or is reached through, a networkx graph (`g`, `g.nodes[n]`, `g[a][b]`)."""
+    while True:
+        if _is_digraph(T, f, e):
+            return True
+        if isinstance(e, (ast.Attribute, ast.Subscript)):
+            e = e.value
+        elif isinstance(e, ast.Call) and isinstance(e.func, ast.Attribute):
+            e = e.func.value
+        else:
+            return False
+
+
+def _lib_name(repo: Repo, ctx: FuncInfo, call: ast.Call) -> str:
+    """Dotted name of a called library function; names in an inlined view are resolved where they were written."""
+    src = getattr(call, "_src", None)
+    mod = src[0].module if src is not None else ctx.module
+    if isinstance(call.func, (ast.Name, ast.Attribute)):
+        return repo.resolve_name(mod, call.func) or ""
+    return ""
+
+
+def graph_mutations(repo: Repo) -> list[tuple[FuncInfo, ast.AST, str, ast.AST]]:
+    """(function, node, kind, receiver) of every in-place modification of a networkx graph: kind is node | edge | other."""
+    from core.cfg import MUTATORS
+
+    T = types_of(repo)
+    out = []
+    for f in repo.all_functions():
+        for n in own_nodes(f.node):
+            if isinstance(n, ast.Call) and isinstance(n.func, ast.Attribute):
+                a = n.func.attr
+                if _graph_call(T, f, n):
+                    out.append((f, n, "node" if a in NODE_ADDERS else "edge" if a in EDGE_ADDERS else "other", n.func.value))
+                elif a in MUTATORS and not _is_digraph(T, f, n.func.value) and _through_digraph(T, f, n.func.value):
+                    out.append((f, n, "other", n.func.value))
+            elif isinstance(n, (ast.Assign, ast.AugAssign, ast.AnnAssign, ast.Delete)):
+                tg = n.targets if isinstance(n, (ast.Assign, ast.Delete)) else [n.target]
+                for t in tg:
+                    for el in (t.elts if isinstance(t, (ast.Tuple, ast.List)) else [t]):
+                        if isinstance(el, (ast.Subscript, ast.Attribute)) and _through_digraph(T, f, el.value):
+                            out.append((f, n, "other", el.value))
+    return out
+
+
+def _closure(repo: Repo, seeds: set[FuncInfo]) -> set[FuncInfo]:
+    """Functions from which one of `seeds` is reachable through resolved calls."""
+    out = set(seeds)
+    changed = True
+    funcs = repo.all_functions()
+    while changed:
+        changed = False
+        for f in funcs:
+            if f in out:
+                continue
+            if any(g in out for g in callees_of(repo, f, False)):
+                out.add(f)
+                changed = True
+    return out
+
+
+def _own_exprs(s: ast.AST) -> list[ast.AST]:
+    """Expressions evaluated by the statement itself (not by the statements nested in it)."""
+    if isinstance(s, (ast.For, ast.AsyncFor)):
+        return [s.iter]
+    if isinstance(s, (ast.While, ast.If)):
+        return [s.test]
+    if isinstance(s, (ast.With, ast.AsyncWith)):
+        return [i.context_expr for i in s.items]
+    if isinstance(s, ast.Try):
+        return []
+    if isinstance(s, ast.Match):
+        return [s.subject]
+    if isinstance(s, (ast.FunctionDef, ast.AsyncFunctionDef, ast.ClassDef, ast.ExceptHandler)):
+        return []
+    return [s]
+
+
+def _graph_closures(repo: Repo) -> dict:
+    key = "_c15_graph_closures"
+    if key not in repo.__dict__:
+        muts = graph_mutations(repo)
+        kind_funcs = {k: _closure(repo, {f for f, _n, kk, _r in muts if kk == k}) for k in ("node", "edge", "other")}
+        freezers = {f for f in repo.all_functions() for c in calls_in(f.node) if _lib_name(repo, f, c) == "networkx.freeze"}
+        repo.__dict__[key] = {"muts": muts, "kind_funcs": kind_funcs, "freeze_funcs": _closure(repo, freezers)}
+    return repo.__dict__[key]
+
+
+class GraphBuild:
+    """A function that takes part in building a graph (the constructor of a graph class, a builder), seen through its inlined
+    view: where is a graph modified, where is it frozen."""
+
+    def __init__(self, repo: Repo, fn: FuncInfo) -> None:
+        self.repo = repo
+        self.fn = fn
+        self.T = types_of(repo)
+        self.view = inline_view(repo, fn, self.T)
+        self.cfg = cfg_of(self.view)
+        cl = _graph_closures(repo)
+        self.kind_funcs = cl["kind_funcs"]
+        self.freeze_funcs = cl["freeze_funcs"]
+        self.ev = {s: self.events(s) for s in self.cfg.stmts()}
+
+    def callees(self, c: ast.Call) -> list[FuncInfo]:
+        try:
+            cs, _how = self.T.callees(self.view, c, byname_fallback=False)
+        except Exception:  # noqa: BLE001
+            cs = []
+        return [g for g in cs if not g.is_abstract]
+
+    def events(self, s: ast.AST) -> dict[str, list[ast.Call]]:
+        """kind -> calls of the statement's own expressions that (may) modify / freeze a graph."""
+        out: dict[str, list[ast.Call]] = {}
+        v, T = self.view, self.T
+        for e in _own_exprs(s):
+            for c in ast.walk(e):
+                if isinstance(c, (ast.Assign, ast.AugAssign, ast.AnnAssign, ast.Delete)) and c is s:
+                    tg = c.targets if isinstance(c, (ast.Assign, ast.Delete)) else [c.target]
+                    for t in tg:
+                        for el in (t.elts if isinstance(t, (ast.Tuple, ast.List)) else [t]):
+                            if isinstance(el, (ast.Subscript, ast.Attribute)) and _through_digraph(T, v, el.value):
+                                out.setdefault("other", []).append(c)  # type: ignore[arg-type]
+                if not isinstance(c, ast.Call):
+                    continue
+                if _lib_name(self.repo, v, c) == "networkx.freeze":
+                    out.setdefault("freeze", []).append(c)
+                    continue
+                if _graph_call(T, v, c):
+                    a = c.func.attr
+                    out.setdefault("node" if a in NODE_ADDERS else "edge" if a in EDGE_ADDERS else "other", []).append(c)
+                    continue
+                try:
+                    cs, _how = T.callees(v, c, byname_fallback=False)
+                except Exception:  # noqa: BLE001
+                    cs = []
+                cs = list(cs)
+                # callables handed to the callee (map(self._add_import, imports), key=...) are assumed to be called by it
+                for a in [*c.args, *[k.value for k in c.keywords]]:
+                    try:
+                        at = T.expr(v, a)
+                    except Exception:  # noqa: BLE001
+                        continue
+                    cs += [m[1] for m in members(at) if m[0] == "fn"]
+                for k, fs in self.kind_funcs.items():
+                    if any(g in fs for g in cs):
+                        out.setdefault(k, []).append(c)
+                if any(g in self.freeze_funcs for g in cs):
+                    out.setdefault("freeze", []).append(c)
+        return out
+
+
+def _derived(v: FuncInfo, seed: str) -> set[str]:
+    """Names and `self.x` texts of the view that hold (a copy / projection of) the parameter `seed`."""
+    d = {seed}
+
+    def mentions(e: ast.AST) -> bool:
+        return any((isinstance(x, ast.Name) and x.id in d) or (isinstance(x, ast.Attribute) and norm(x) in d) for x in ast.walk(e))
+
+    changed = True
+    while changed:
+        changed = False
+        for n in own_nodes(v.node):
+            if isinstance(n, (ast.Assign, ast.AnnAssign)) and n.value is not None and mentions(n.value):
+                tg = n.targets if isinstance(n, ast.Assign) else [n.target]
+                for t in tg:
+                    key = t.id if isinstance(t, ast.Name) else norm(t) if isinstance(t, ast.Attribute) else None
+                    if key is not None and key not in d:
+                        d.add(key)
+                        changed = True
+    return d
+
+
+def _mentions(e: ast.AST, d: set[str]) -> bool:
+    return any((isinstance(x, ast.Name) and x.id in d) or (isinstance(x, ast.Attribute) and norm(x) in d) for x in ast.walk(e))
+
+
+def _elem_classes(t) -> set[str] | None:
+    """Repo classes among the element type(s) of an iterable type (tuples flattened); None when the element type is unknown."""
+    from core.types import elem_type
+
+    out: set[str] = set()
+    known = False
+
+    def walk(x) -> None:
+        nonlocal known
+        for m in members(x):
+            if m[0] == "cls":
+                known = True
+                out.add(m[1])
+            elif m[0] == "b" and m[1] == "tuple":
+                for a in m[2]:
+                    walk(a)
+            elif m[0] == "b":
+                known = True
+            elif m[0] in ("lib", "type", "fn"):
+                known = True
+
+    walk(elem_type(t))
+    return out if known else None
+
+
+def _unit_over(v: FuncInfo, call: ast.Call, d: set[str], repo: Repo, T, by_class: set[str] | None = None) -> ast.AST | None:
+    """Outermost statement that makes `call` happen once per element of a collection derived from `d`: an enclosing loop or
+    comprehension over it, a bulk call taking it as argument, or a call of a helper that loops over it.  With `by_class`, a loop
+    whose element type is known counts exactly when its elements are instances of one of these classes (the data flow is only
+    consulted for untyped iterables): aggregates holding both arguments do not blur the picture."""
+
+    def over(it: ast.AST) -> bool:
+        if by_class is not None:
+            try:
+                ec = _elem_classes(T.expr(v, it))
+            except Exception:  # noqa: BLE001
+                ec = None
+            if ec is not None:
+                return bool(ec & by_class)
+        return _mentions(it, d)
+
+    unit = None
+    for lp in loops_around(call, v.node):
+        for _t, it in iter_sources(lp):
+            if over(it):
+                unit = lp if isinstance(lp, (ast.For, ast.AsyncFor)) else stmt_of(lp)
+    if unit is not None:
+        return unit
+    if any(over(a) for a in [*call.args, *[k.value for k in call.keywords]]):
+        return stmt_of(call)
+    attrs = {x.split(".", 1)[1] for x in d if x.startswith("self.")}
+    try:
+        cs, _how = T.callees(v, call, byname_fallback=False)
+    except Exception:  # noqa: BLE001
+        cs = []
+    for g in cs:
+        gv = inline_view(repo, g, T)
+        for n in own_nodes(gv.node):
+            its = [n.iter] if isinstance(n, (ast.For, ast.AsyncFor, ast.comprehension)) else []
+            for it in its:
+                if by_class is not None:
+                    try:
+                        ec = _elem_classes(T.expr(gv, it))
+                    except Exception:  # noqa: BLE001
+                        ec = None
+                    if ec is not None:
+                        if ec & by_class:
+                            return stmt_of(call)
+                        continue
+                if any(isinstance(x, ast.Attribute) and isinstance(x.value, ast.Name) and x.attr in attrs for x in ast.walk(it)):
+                    return stmt_of(call)
+    return None
+
+
+def freeze_verdict(repo: Repo, fn: FuncInfo, depth: int = 0, stack: tuple = ()) -> tuple[str, str, ast.AST | None]:
+    """('ok' | 'violated' | 'undecided', detail, node): on every path to the normal exit of `fn` the graph it builds has been
+    frozen, and nothing modifies a graph after the freeze.  A freeze may be `nx.freeze(graph)` itself or a call of a function for
+    which the same holds (a builder that builds, freezes and returns)."""
+    from core.cfg import EXIT
+
+    T = types_of(repo)
+    gb = GraphBuild(repo, fn)
+    v, cfg, ev = gb.view, gb.cfg, gb.ev
+    freezes: list[ast.AST] = []
+    self_contained: set[int] = set()  # statements whose own modifications precede their own freeze (verified callee)
+    for s, e in ev.items():
+        if "freeze" not in e:
+            continue
+        good = True
+        for c in e["freeze"]:
+            if _lib_name(repo, v, c) == "networkx.freeze":
+                if not (c.args and isinstance(c.args[0], (ast.Name, ast.Attribute)) and _is_digraph(T, v, c.args[0])):
+                    return "violated", "nx.freeze is not applied to the graph itself (a copy or another object is frozen)", s
+                continue
+            if depth >= 3:
+                return "undecided", f"`{norm(c, 80)}` freezes the graph somewhere below; the nesting is too deep to follow", s
+            for g in gb.callees(c):
+                if g not in gb.freeze_funcs:
+                    continue
+                if g.fq in stack:
+                    return "undecided", f"`{norm(c, 80)}` is recursive", s
+                verdict, detail, _n = freeze_verdict(repo, g, depth + 1, stack + (fn.fq,))
+                if verdict == "undecided":
+                    return verdict, detail, s
+                if verdict == "violated":
+                    good = False  # the callee does not guarantee a frozen graph: this statement is no freeze
+        if good:
+            freezes.append(s)
+            if not all(_lib_name(repo, v, c) == "networkx.freeze" for c in e["freeze"]):
+                self_contained.add(id(s))
+    mutating = [s for s, e in ev.items() if any(k in e for k in ("node", "edge", "other"))]
+    if not freezes:
+        return "violated", f"{fn.qualname} never freezes the graph it builds: later calls can modify it", fn.node
+    final = [s for s in freezes if cfg.dominates(s, EXIT)]
+    if not final:
+        return "violated", "the graph is not frozen on every path through " + fn.qualname, freezes[0]
+    for s in final:
+        if s in mutating and id(s) not in self_contained:
+            return "undecided", f"`{header(s)}` both modifies and freezes the graph in one expression: the order of the two cannot be seen", s
+    late = [m for m in mutating for s in final if m is not s and cfg.paths_avoiding(s, m, set())]
+    if late:
+        return "violated", f"`{header(late[0])}` modifies the graph after it has been frozen (freeze must follow the construction)", late[0]
+    return "ok", "nx.freeze(graph) is passed on every path to the end of the construction and nothing modifies the graph afterwards", final[0]
+
 
 def run_r1(repo: Repo, res: Result) -> None:
-    g = repo.cls(NXGRAPH, "NetworkxGraph")
-    init = g.methods.get("__init__")
-    if init is None:
-        raise AnalysisError("NetworkxGraph.__init__ not found")
-    cfg = cfg_of(init)
-    freeze = [c for c in calls_in(init.node) if (repo.resolve_name(init.module, c.func) or "").endswith("networkx.freeze") or dotted(c.func) in ("nx.freeze", "freeze")]
-    builders = [c for c in calls_in(init.node) if isinstance(c.func, ast.Attribute) and dotted(c.func.value) == "self" and c.func.attr.startswith("_") and repo.lookup_method(g, c.func.attr) is not None]
-    ok = len(freeze) == 1 and bool(builders)
-    detail = "nx.freeze(self._graph) is the last step of the only constructor"
-    if ok:
-        fz = stmt_of(freeze[0])
-        from core.cfg import EXIT
-
-        ok = "_graph" in norm(freeze[0].args[0]) if freeze[0].args else False
-        ok = ok and cfg.dominates(fz, EXIT) and all(cfg.dominates(stmt_of(b), fz) for b in builders)
-        if not ok:
-            detail = "the graph is not frozen on every path after it has been built (freeze must follow _initialise and dominate the exit)"
-    else:
-        detail = "the constructor does not freeze the graph after building it"
-    res.add("C15.R1", f"{init.relpath}::{init.qualname}::freeze", ok, detail, where(init, init.node), kind="dominance")
-    # who may mutate the graph
     T = types_of(repo)
-    mutating: list[tuple[FuncInfo, ast.Call]] = []
-    for f in repo.all_functions():
-        for c in calls_in(f.node):
-            if isinstance(c.func, ast.Attribute) and c.func.attr in GRAPH_MUTATORS:
-                t = T.expr(f, c.func.value)
-                if any(m == ("lib", "networkx.DiGraph") for m in members(t)):
-                    mutating.append((f, c))
-        for n in own_nodes(f.node):
-            if isinstance(n, ast.Assign):
-                for t_ in n.targets:
-                    if isinstance(t_, ast.Subscript) and any(m == ("lib", "networkx.DiGraph") for m in members(T.expr(f, t_.value))):
-                        mutating.append((f, n))
-    # functions reachable from anything that is not the constructor chain
-    public = [m for m in g.methods.values() if m is not init and (not m.name.startswith("_") or m.name.startswith("__"))]
-    outside = reachable_funcs(repo, [*public, *evaluation_roots(repo)], byname=True, stop={init.fq})
-    outside.pop(init, None)
-    from_init = reachable_funcs(repo, [init], byname=False)
-    for f, c in mutating:
-        ok = f in from_init and f not in outside
+    R = _roots(repo)
+    if R._store_index is None:
+        R._build_store_index()
+    roots = evaluation_roots(repo)
+    reach_eval = _eval_reach(repo)
+    # long-lived graph holders: an instance attribute holds a networkx graph, and methods of the class take part in evaluations
+    # (a builder object that lives only inside a constructor is not one of them)
+    graph_classes = []
+    for (cfq, attr) in sorted(R._store_index):  # type: ignore[arg-type]
+        ci = repo.classes.get(cfq)
+        if ci is not None and ci not in graph_classes and any(m == DIGRAPH for m in members(T.attr_type(ci, attr))):
+            graph_classes.append(ci)
+    holders = [g for g in graph_classes if any(m in reach_eval for c in R.hierarchy(g) for m in c.methods.values() if m.name not in ("__init__", "__post_init__"))]
+    if not holders:
+        res.undecide("C15.R1", "src::graph class", "no class that takes part in evaluations keeps a networkx.DiGraph in an instance attribute: the frozen-graph argument has no anchor")
+        return
+    cl = _graph_closures(repo)
+    muts = cl["muts"]
+    inits: list[FuncInfo] = []
+    for g in holders:
+        init = repo.lookup_method(g, "__init__")
+        if init is None:
+            res.undecide("C15.R1", f"{g.module.relpath}::{g.name}::__init__", "graph class without a constructor of its own")
+            continue
+        inits.append(init)
+        key = f"{init.relpath}::{init.qualname}::freeze"
+        verdict, detail, node = freeze_verdict(repo, init)
+        if verdict == "undecided":
+            res.undecide("C15.R1", key, detail, where(init, node or init.node))
+        else:
+            res.add("C15.R1", key, verdict == "ok", detail, where(init, init.node), kind="dominance")
+        gb = GraphBuild(repo, init)
+        v, cfg, ev = gb.view, gb.cfg, gb.ev
+        # nodes before import edges
+        params = [p for p in init.param_names if p != Roots.self_name(init)]
+        okey = f"{init.relpath}::{init.qualname}::nodes before edges"
+        if len(params) < 2:
+            res.undecide("C15.R1", okey, "the constructor does not take (modules, imports): cannot tell module registration from import edges")
+        else:
+            d_mod, d_imp = _derived(v, params[0]), _derived(v, params[1])
+            # the imports argument is recognised by the class of its elements where the annotation tells it
+            imp_classes: set[str] | None = None
+            ec = _elem_classes(T.param_type(init, params[1]))
+            if ec:
+                imp_classes = set()
+                for fq in ec:
+                    ci = repo.classes.get(fq)
+                    if ci is not None:
+                        imp_classes |= {c.fq for c in repo.mro(ci)} | {c.fq for c in repo.subclasses(ci)}
+            node_units: list[ast.AST] = []
+            edge_units: list[ast.AST] = []
+            for s, e in ev.items():
+                for c in e.get("edge", []):
+                    u = _unit_over(v, c, d_imp, repo, T, imp_classes)
+                    if u is not None and u not in edge_units:
+                        edge_units.append(u)
+            for s, e in ev.items():
+                for c in e.get("node", []):
+                    u = _unit_over(v, c, d_mod, repo, T)
+                    if u is not None and u not in node_units and not any(u is x or x in list(ancestors(u)) for x in edge_units):
+                        node_units.append(u)
+            if not edge_units:
+                res.undecide("C15.R1", okey, f"no statement of the constructor creates edges per element of `{params[1]}`: the import loop was not recognised", where(init, init.node))
+            else:
+                def complete(u: ast.AST) -> bool:
+                    # the registration loop runs to its end: no break of its own
+                    if not isinstance(u, (ast.For, ast.AsyncFor)):
+                        return True
+                    for b in ast.walk(u):
+                        if isinstance(b, ast.Break):
+                            inner = next((a for a in ancestors(b) if isinstance(a, (ast.For, ast.AsyncFor, ast.While))), None)
+                            if inner is u:
+                                return False
+                    return True
+
+                good = [u for u in node_units if complete(u) and all(u is not e and u not in list(ancestors(e)) and cfg.dominates(u, e) for e in edge_units)]
+                ok = bool(good)
+                res.add(
+                    "C15.R1",
+                    okey,
+                    ok,
+                    f"every module of `{params[0]}` is registered as a node (`{header(good[0])}`) before the first edge is created from `{params[1]}`" if ok else f"import edges (`{header(edge_units[0])}`) are created before all modules of `{params[0]}` are nodes: the has_node guard makes the edge set depend on the order of imports/modules",
+                    where(init, edge_units[0]),
+                    kind="dominance",
+                )
+    # who may modify a graph after construction: nothing that an evaluation or a public method of a graph holder can reach
+    public = [m for g in holders for c in R.hierarchy(g) for m in c.methods.values() if m not in inits and (not m.name.startswith("_") or (m.name.startswith("__") and m.name not in ("__init__", "__post_init__")))]
+    outside = reachable_funcs(repo, [*public, *roots], byname=True, stop={i.fq for i in inits})
+    for i in inits:
+        outside.pop(i, None)
+    n_sites = 0
+    for f, c, _k, recv in muts:
+        rv = R.value(f, recv)
+        if rv.obj and rv.only_fresh:
+            continue  # a private graph created in this very function
+        n_sites += 1
+        ok = f not in outside
         path = outside.get(f)
         res.add(
             "C15.R1",
             repo.key(f, stmt_of(c)),
             ok,
-            "graph mutator reachable only from the constructor" if ok else f"`{norm(c)}` mutates the graph and is reachable after construction via {' -> '.join(p.split('::')[1] for p in path) if path else 'a function outside the constructor chain'}",
+            "graph mutator not reachable from any evaluation entry point or public method of a graph holder (construction only)" if ok else f"`{norm(c)}` mutates the graph and is reachable after construction via {' -> '.join(p.split('::')[1] for p in path) if path else 'a function outside the constructor chain'}",
             where(f, c),
             kind="effect",
         )
-    res.floor("C15.R1", 3, len(mutating) + 1)
-    # all nodes before the first import edge
-    ini = g.methods.get("_initialise")
-    if ini is None:
-        raise AnalysisError("NetworkxGraph._initialise not found")
-    loops = [n for n in own_nodes(ini.node) if isinstance(n, ast.For) and "_imports" in norm(n.iter)]
-    adders = [c for c in calls_in(ini.node) if is_attr_call(c, "_add_all_modules_as_nodes")]
-    ok = bool(loops) and bool(adders) and all(cfg_of(ini).dominates(stmt_of(adders[0]), l) for l in loops) and not any(a is l for l in loops for a in ancestors(adders[0]))
-    res.add("C15.R1", f"{ini.relpath}::{ini.qualname}::nodes before edges", ok, "every module is registered as a node before the first import edge is created" if ok else "import edges are created before all modules are nodes: the has_node guard makes the edge set depend on the order of imports/modules", where(ini, ini.node), kind="dominance")
+    if n_sites == 0:
+        res.undecide("C15.R1", "src::graph mutators", "no statement that adds nodes or edges to a networkx graph was recognised")
 
 
 # --------------------------------------------------------------------------- R2
 
 
+def _eval_reach(repo: Repo) -> dict:
+    key = "_c15_eval_reach"
+    if key not in repo.__dict__:
+        repo.__dict__[key] = reachable_funcs(repo, evaluation_roots(repo), byname=True)
+    return repo.__dict__[key]
+
+
+def _roots(repo: Repo) -> Roots:
+    key = "_c15_roots"
+    if key not in repo.__dict__:
+        repo.__dict__[key] = Roots(repo, types_of(repo))
+    return repo.__dict__[key]
+
+
+def _describe(tag, root_fn: FuncInfo) -> str:
+    r, level = tag
+    what = "receiver" if r[0] == "self" else f"argument `{r[2]}`" if r[0] == "param" else f"module-level `{r[1]}`" if r[0] == "global" else f"object of unknown origin `{r[1]}`"
+    if r[0] not in ("self", "param"):
+        return what
+    return {0: f"its {what}", 1: f"state owned by its {what}", 11: f"an object held by its {what}", 12: f"an object held inside its {what}"}.get(level, f"an object reachable from its {what}")
+
+
+class Rewrite:
+    """A store `self.F = V` in (the inlined view of) an evaluation entry point where V is computed from self.F."""
+
+    def __init__(self, root: FuncInfo, field_: str) -> None:
+        self.root = root
+        self.field = field_
+        self.stores: list[tuple[FuncInfo, ast.AST]] = []  # original statements (function, node)
+        self.verdict = "idempotent"  # idempotent | violated | undecided
+        self.detail = ""
+        self.flags: set[str] = set()
+
+
+def _is_replace(repo: Repo, ctx: FuncInfo, call: ast.Call) -> bool:
+    src = getattr(call, "_src", None)
+    mod = src[0].module if src is not None else ctx.module
+    fq = repo.resolve_name(mod, call.func) if isinstance(call.func, (ast.Name, ast.Attribute)) else None
+    return fq in ("dataclasses.replace", "copy.replace")
+
+
+def _falsy_const(e: ast.expr) -> bool:
+    return isinstance(e, ast.Constant) and e.value in (False, None, 0)
+
+
+def _single_assignments(v: FuncInfo) -> dict[str, ast.expr]:
+    """Locals of the view that are bound exactly once, by a plain assignment."""
+    counts: dict[str, int] = {}
+    vals: dict[str, ast.expr] = {}
+    for n in own_nodes(v.node):
+        if isinstance(n, ast.Name) and isinstance(n.ctx, ast.Store):
+            counts[n.id] = counts.get(n.id, 0) + 1
+        if isinstance(n, (ast.Assign, ast.AnnAssign)) and n.value is not None:
+            for t in (n.targets if isinstance(n, ast.Assign) else [n.target]):
+                if isinstance(t, ast.Name):
+                    vals[t.id] = n.value
+    return {k: e for k, e in vals.items() if counts.get(k) == 1 and k not in v.param_names}
+
+
+def _leaves(v: FuncInfo, e: ast.expr, seen: set[str] | None = None) -> list[ast.expr]:
+    """Expressions a value may come from: conditional expressions are split, plain locals are followed to their assignments."""
+    seen = seen if seen is not None else set()
+    if isinstance(e, ast.IfExp):
+        return _leaves(v, e.body, seen) + _leaves(v, e.orelse, seen)
+    if isinstance(e, ast.Name) and e.id not in v.param_names and e.id not in seen:
+        seen.add(e.id)
+        out: list[ast.expr] = []
+        simple = True
+        for n in own_nodes(v.node):
+            if isinstance(n, (ast.Assign, ast.AnnAssign)) and n.value is not None:
+                tg = n.targets if isinstance(n, ast.Assign) else [n.target]
+                for t in tg:
+                    if isinstance(t, ast.Name) and t.id == e.id:
+                        out += _leaves(v, n.value, seen)
+                    elif any(isinstance(x, ast.Name) and x.id == e.id for x in ast.walk(t)):
+                        simple = False
+            elif isinstance(n, (ast.For, ast.AsyncFor, ast.comprehension)) and any(isinstance(x, ast.Name) and x.id == e.id for x in ast.walk(n.target)):
+                simple = False
+            elif isinstance(n, (ast.AugAssign, ast.NamedExpr)) and isinstance(n.target, ast.Name) and n.target.id == e.id:
+                simple = False
+        if out and simple:
+            return out
+    return [e]
+
+
+class _RewriteView:
+    """One function (view) in which the old value of the field is known under the texts `ident`."""
+
+    def __init__(self, repo: Repo, v: FuncInfo, ident: set[str], outer=None, depth: int = 0) -> None:
+        self.repo = repo
+        self.T = types_of(repo)
+        self.v = v
+        self.ident = set(ident)
+        self.outer = outer  # flag name -> True / None / False: what is known about the flag where this view was entered from
+        self.depth = depth
+        self.single = _single_assignments(v)
+        # locals that only ever alias the old value
+        for name, val in self.single.items():
+            if norm(val) in self.ident:
+                self.ident.add(name)
+
+    def is_old(self, e: ast.AST) -> bool:
+        return norm(e) in self.ident
+
+    def mentions_old(self, e: ast.AST) -> bool:
+        return any(self.is_old(x) for x in ast.walk(e) if isinstance(x, (ast.Attribute, ast.Name)))
+
+    def flag_set(self, node: ast.AST, k: str) -> bool | None:
+        """True: the path condition of `node` implies that flag k of the old value is set; False: there is no condition at all;
+        None: there is a condition, but it could not be related to the flag."""
+        guard = guard_formula(self.v, node)
+        texts = {f"{i}.{k}" for i in self.ident}
+        names = sorted(texts) + [n for n, val in self.single.items() if norm(val) in texts]
+        # `x is True` / `x is False` / truthiness of one attribute are related; a field declared `bool` is one of the two
+        from core.guards import f_and, f_not, f_or
+
+        facts = []
+        for a in names:
+            is_t, is_f, truthy = atom(f"{a} is True"), atom(f"{a} is False"), atom(f"bool({a})")
+            facts += [f_or([f_not(is_t), truthy]), f_or([f_not(is_f), f_not(truthy)])]
+            try:
+                declared_bool = self.T.expr(self.v, ast.parse(a, mode="eval").body) == ("b", "bool", ())
+            except Exception:  # noqa: BLE001
+                declared_bool = False
+            if declared_bool:
+                facts.append(f_or([is_t, is_f]))
+        constraints = f_and(facts)
+        for a in names:
+            if implies(guard, atom(f"bool({a})"), constraints):
+                return True
+        # the condition is made of nothing but tests of the old value's own attributes (or locals holding them): propositional
+        # reasoning is then complete, and "not implied" means there is a path with the flag clear
+        from core.guards import atoms_of
+
+        known = {n for n, val in self.single.items() if any(norm(val).startswith(f"{i}.") for i in self.ident)}
+
+        def plain(a: str) -> bool:
+            body = a[5:-1] if a.startswith("bool(") and a.endswith(")") else a.split(" is ")[0] if " is " in a else a.split(" == ")[0] if " == " in a else None
+            if body is None:
+                return False
+            return any(body.startswith(f"{i}.") and body[len(i) + 1:].isidentifier() for i in self.ident) or body in known
+
+        definite = all(plain(a) for a in atoms_of(guard))
+        if self.outer is not None:
+            o = self.outer(k)
+            if o:
+                return True
+            return False if (o is False and definite) else None
+        return False if definite else None
+
+    def keywords(self, call: ast.Call) -> tuple[dict[str, ast.expr], bool]:
+        """Keyword arguments with `**name` expanded where name is a dict display with constant keys; second item: all known."""
+        kw: dict[str, ast.expr] = {}
+        complete = True
+        for k in call.keywords:
+            if k.arg is not None:
+                kw[k.arg] = k.value
+                continue
+            d = k.value
+            if isinstance(d, ast.Name) and d.id in self.single:
+                d = self.single[d.id]
+            if isinstance(d, ast.Call) and isinstance(d.func, ast.Name) and d.func.id == "dict" and not d.args:
+                for kk in d.keywords:
+                    if kk.arg is not None:
+                        kw[kk.arg] = kk.value
+                    else:
+                        complete = False
+            elif isinstance(d, ast.Dict):
+                for x, val in zip(d.keys, d.values):
+                    if isinstance(x, ast.Constant) and isinstance(x.value, str):
+                        kw[x.value] = val
+                    else:
+                        # `**other` inside the display (or a computed key): it may override what was collected so far
+                        kw.clear()
+                        complete = False
+            else:
+                complete = False
+        return kw, complete
+
+    def classify(self, leaf: ast.expr) -> tuple[str, set[str], str]:
+        """('identity' | 'rebuild' | 'bad' | 'opaque', flags cleared, detail) for one value stored back into the field."""
+        if self.is_old(leaf):
+            return "identity", set(), ""
+        if not isinstance(leaf, ast.Call):
+            return "bad", set(), f"`{norm(leaf, 90)}` is neither the old value nor a guarded rebuild of it"
+        kw, complete = self.keywords(leaf)
+        rebuilt = False
+        if _is_replace(self.repo, self.v, leaf) and leaf.args and self.is_old(leaf.args[0]):
+            rebuilt = True
+        elif self.T.ctor_class(self.v, leaf) is not None and any(self.mentions_old(a) for a in [*leaf.args, *[k.value for k in leaf.keywords]]):
+            rebuilt = True
+        if rebuilt:
+            cleared, unsure = set(), False
+            for k, val in kw.items():
+                if _falsy_const(val):
+                    fs = self.flag_set(leaf, k)
+                    if fs:
+                        cleared.add(k)
+                    elif fs is None:
+                        unsure = True
+            if cleared:
+                return "rebuild", cleared, ""
+            if unsure or not complete:
+                return "opaque", set(), f"`{norm(leaf, 90)}` rebuilds the value under a condition that could not be related to a flag it clears"
+            return "bad", set(), f"`{norm(leaf, 90)}` builds a new value from the old one on a path that is not guarded by a flag of the old value which the new value clears: applying the rewrite twice differs from applying it once"
+        # a helper that could not be expanded in place: look at what it returns for the old value
+        if self.depth < 2:
+            try:
+                cs, _how = self.T.callees(self.v, leaf, byname_fallback=False)
+            except Exception:  # noqa: BLE001
+                cs = []
+            cs = [c for c in cs if not c.is_abstract]
+            if len(cs) == 1 and not isinstance(cs[0].node, ast.Lambda):
+                h = cs[0]
+                a = h.node.args
+                pos = [p.arg for p in [*a.posonlyargs, *a.args]]
+                if Roots.self_name(h) is not None and pos:
+                    pos = pos[1:]
+                bound = [p for p, x in zip(pos, leaf.args) if self.is_old(x)] + [k.arg for k in leaf.keywords if k.arg and self.is_old(k.value)]
+                if len(bound) == 1:
+                    hv = inline_view(self.repo, h, self.T)
+                    inner = _RewriteView(self.repo, hv, {bound[0]}, outer=lambda k, leaf=leaf: self.flag_set(leaf, k), depth=self.depth + 1)
+                    rets = [n for n in own_nodes(hv.node) if isinstance(n, ast.Return) and n.value is not None]
+                    if rets:
+                        kinds, flags, details = [], set(), []
+                        for r in rets:
+                            for lf in _leaves(hv, r.value):
+                                k_, f_, d_ = inner.classify(lf)
+                                kinds.append(k_)
+                                flags |= f_
+                                if d_:
+                                    details.append(d_)
+                        if "bad" in kinds:
+                            return "bad", set(), details[0]
+                        if "opaque" in kinds:
+                            return "opaque", set(), details[0]
+                        return ("rebuild", flags, "") if "rebuild" in kinds else ("identity", set(), "")
+        return "opaque", set(), f"`{norm(leaf, 90)}` is computed by a call that could not be expanded"
+
+
+def _param_tainted(v: FuncInfo, params: set[str]) -> set[str]:
+    """Locals of the view whose value may depend on one of `params`."""
+    tainted = set(params)
+    changed = True
+    while changed:
+        changed = False
+        for n in own_nodes(v.node):
+            src, tgts = None, []
+            if isinstance(n, ast.Assign):
+                src, tgts = n.value, n.targets
+            elif isinstance(n, (ast.AnnAssign, ast.AugAssign)) and n.value is not None:
+                src, tgts = n.value, [n.target]
+            elif isinstance(n, (ast.For, ast.AsyncFor, ast.comprehension)):
+                src, tgts = n.iter, [n.target]
+            elif isinstance(n, ast.NamedExpr):
+                src, tgts = n.value, [n.target]
+            if src is None:
+                continue
+            if any(isinstance(x, ast.Name) and x.id in tainted for x in ast.walk(src)):
+                for t in tgts:
+                    for x in ast.walk(t):
+                        if isinstance(x, ast.Name) and isinstance(x.ctx, ast.Store) and x.id not in tainted:
+                            tainted.add(x.id)
+                            changed = True
+    return tainted
+
+
+def find_rewrites(repo: Repo, root: FuncInfo) -> list[Rewrite]:
+    """Self-rewrites `self.F = h(self.F)` of an entry point, each judged for idempotence on the inlined view."""
+    T = types_of(repo)
+    sn = Roots.self_name(root)
+    if sn is None:
+        return []
+    v = inline_view(repo, root, T)
+    by_field: dict[str, list[ast.Assign]] = {}
+    for n in own_nodes(v.node):
+        if isinstance(n, (ast.Assign, ast.AnnAssign)) and n.value is not None:
+            tg = n.targets if isinstance(n, ast.Assign) else [n.target]
+            for t in tg:
+                if isinstance(t, ast.Attribute) and isinstance(t.value, ast.Name) and t.value.id == sn:
+                    by_field.setdefault(t.attr, []).append(n)
+    out: list[Rewrite] = []
+    others = {p for p in root.param_names if p != sn}
+    tainted = _param_tainted(v, others) if others else set()
+    for fld, stores in by_field.items():
+        rv = _RewriteView(repo, v, {f"{sn}.{fld}"})
+        leaves: list[tuple[ast.AST, ast.expr]] = []
+        for st in stores:
+            for leaf in _leaves(v, st.value):
+                leaves.append((st, leaf))
+        if not any(rv.mentions_old(leaf) for _st, leaf in leaves):
+            continue  # not a rewrite of the old value: an ordinary write, judged by the effect rule
+        rw = Rewrite(root, fld)
+        for st in stores:
+            src = getattr(st, "_src", None)
+            rw.stores.append(src if src is not None else (root, st))
+        for st, leaf in leaves:
+            kind_, flags, detail = rv.classify(leaf)
+            if kind_ == "rebuild":
+                rw.flags |= flags
+            if kind_ in ("rebuild", "opaque"):
+                dep = sorted({x.id for x in ast.walk(leaf) if isinstance(x, ast.Name) and x.id in tainted})
+                if dep:
+                    rw.verdict, rw.detail = "violated", f"the rewritten `{sn}.{fld}` depends on the argument(s) {', '.join(dep)} of {root.qualname}: the stored value differs between architectures"
+            if kind_ == "bad" and rw.verdict != "violated":
+                rw.verdict, rw.detail = "violated", detail
+            elif kind_ == "opaque" and rw.verdict == "idempotent":
+                rw.verdict, rw.detail = "undecided", detail
+        if rw.verdict == "idempotent" and not rw.flags:
+            rw.detail = f"`{sn}.{fld}` is only ever re-assigned to itself"
+        elif rw.verdict == "idempotent":
+            rw.detail = f"`{sn}.{fld}` is replaced by a rebuilt copy only while its flag {', '.join(sorted(rw.flags))} is set, and the copy clears that flag; otherwise it is stored back unchanged: applying the rewrite twice equals applying it once, and the rewrite does not look at the architecture"
+        out.append(rw)
+    return out
+
+
 def run_r2(repo: Repo, res: Result) -> None:
     T = types_of(repo)
-    E = Effects(repo, T)
+    R = _roots(repo)
     roots = evaluation_roots(repo)
-    reach = reachable_funcs(repo, roots, byname=True)
-    # classes whose instances are created during evaluation only (every construction site lies in the reachable region)
-    ctor_sites: dict[str, list[FuncInfo]] = {}
-    for f in repo.all_functions():
-        for c in calls_in(f.node):
-            ci = T.ctor_class(f, c)
-            if ci is not None:
-                ctor_sites.setdefault(ci.fq, []).append(f)
-    root_classes = {r.cls.fq for r in roots if r.cls is not None}
-
-    def evaluation_local(cls_fq: str) -> bool:
-        sites = ctor_sites.get(cls_fq, [])
-        return bool(sites) and cls_fq not in root_classes and all(s in reach for s in sites)
-
-    # summary: which of {self, params} a function may mutate (transitively), with the witnessing write
-    summary: dict[FuncInfo, dict[str, tuple[Write, list[str]]]] = {f: {} for f in reach}
-    reviewed: list[Write] = []
-
-    def is_reviewed(w: Write) -> bool:
-        # Rule._configuration = _convert_aliases(self._configuration): accepted while idempotent (checked below)
-        return (
-            w.fi.cls is not None and w.fi.cls.fq == f"{RULE}.Rule" and w.fi.name == "assert_applies" and w.how == "attr-store" and w.field == "_configuration"
-            and isinstance(w.node, ast.Assign) and isinstance(w.node.value, ast.Call) and "_convert_aliases" in norm(w.node.value.func)
-        )
-
-    direct_bad: list[tuple[Write, str]] = []
-    for f in reach:
-        for w in E.writes(f):
-            if w.root_kind == "self":
-                if f.name in ("__init__", "__post_init__"):
-                    continue
-                if is_reviewed(w):
-                    reviewed.append(w)
-                    continue
-                summary[f].setdefault("self", (w, [f.fq]))
-            elif w.root_kind == "param":
-                summary[f].setdefault(w.root, (w, [f.fq]))
-            elif w.root_kind == "local" and not w.fresh:
-                origin = _origin(f, w.root)
-                if origin is not None:
-                    summary[f].setdefault(origin, (w, [f.fq]))
-                else:
-                    direct_bad.append((w, "an object that is not created inside this function"))
-            elif w.root_kind in ("classvar", "global"):
-                pass  # R4
-            elif w.root_kind == "unknown":
-                direct_bad.append((w, "an object of unknown origin"))
-    # propagate to callers
-    changed = True
-    rounds = 0
-    while changed and rounds < 30:
-        changed = False
-        rounds += 1
-        for f in reach:
-            for c in calls_in(f.node):
-                cs, _how = T.callees(f, c, byname_fallback=True)
-                for g in cs:
-                    if g not in summary:
-                        continue
-                    for what, (w, path) in list(summary[g].items()):
-                        arg = _argument_for(g, c, what)
-                        if arg is None:
-                            continue
-                        root = _expr_root(f, arg)
-                        if root is None:
-                            continue
-                        rk, rn = root
-                        if rk == "fresh":
-                            continue
-                        if g.name in ("__init__", "__post_init__") and what == "self":
-                            continue
-                        key = rn
-                        if rk in ("self", "param"):
-                            if f.name in ("__init__", "__post_init__") and rk == "self":
-                                continue
-                            if key not in summary[f]:
-                                summary[f][key] = (w, [f.fq] + path)
-                                changed = True
-                        elif rk == "nonfresh-local":
-                            origin = _origin(f, rn)
-                            if origin is not None and origin not in summary[f]:
-                                summary[f][origin] = (w, [f.fq] + path)
-                                changed = True
-    n = 0
+    reach = _eval_reach(repo)
+    # reviewed exception: idempotent self-rewrites of an entry point (the alias rewrite of Rule._configuration)
+    rewrites: list[Rewrite] = []
+    accepted: set[int] = set()
     for r in roots:
-        for what, (w, path) in summary[r].items():
-            cls_of_write = w.fi.cls.fq if w.fi.cls is not None else ""
-            # a write to `self` of an evaluation-local class only matters if it propagated to a root's own state
-            n += 1
+        for rw in find_rewrites(repo, r):
+            rewrites.append(rw)
+            if rw.verdict != "violated":
+                accepted |= {id(node) for _fi, node in rw.stores}
+    S = EffectSummaries(repo, T, R, list(reach), skip=lambda w: id(w.node) in accepted)
+    for r in roots:
+        mine = [e for e in S.of(r) if e.tag[0][0] in ("self", "param") and e.tag[0][1] == r.fq]
+        unknown = [e for e in S.of(r) if e.tag[0][0] == "unknown"]
+        seen: set[int] = set()
+        for e in mine:
+            if id(e.write.node) in seen:
+                continue
+            seen.add(id(e.write.node))
+            w = e.write
             res.add(
                 "C15.R2",
                 repo.key(w.fi, stmt_of(w.node)) + f" [via {r.qualname}]",
                 False,
-                f"evaluation entry point {r.qualname} may modify its long-lived `{what}`: `{header(stmt_of(w.node))}` in {w.fi.qualname} (call path: {' -> '.join(p.split('::')[1] for p in path)}); the verdict of a later evaluation depends on this history",
+                f"evaluation entry point {r.qualname} may modify {_describe(e.tag, r)}: `{header(stmt_of(w.node))}` in {getattr(w.fi, 'shown', w.fi.qualname)} (call path: {' -> '.join(p.split('::')[1] for p in e.path)}); a long-lived object changes during evaluation, so the verdict of a later evaluation depends on this history",
                 where(w.fi, w.node),
                 kind="effect",
             )
-    for w, why in direct_bad:
-        n += 1
-        res.add("C15.R2", repo.key(w.fi, stmt_of(w.node)), False, f"`{header(stmt_of(w.node))}` (reachable from an evaluation entry point) modifies {why}", where(w.fi, w.node), kind="effect")
-    # discharged instances: every write in the reachable region that stays local
-    local_ok = 0
-    for f in reach:
-        for w in E.writes(f):
-            if (w.root_kind == "local" and w.fresh) or (w.root_kind == "self" and f.name in ("__init__", "__post_init__")):
-                local_ok += 1
-    res.add("C15.R2", "evaluation region::writes to fresh objects", True, f"{local_ok} writes in {len(reach)} reachable functions go to objects created during the evaluation (or constructors' own instance)", kind="effect")
-    for r in roots:
-        if not summary[r]:
+        for e in unknown:
+            if id(e.write.node) in seen:
+                continue
+            seen.add(id(e.write.node))
+            w = e.write
+            res.undecide("C15.R2", repo.key(w.fi, stmt_of(w.node)) + f" [via {r.qualname}]", f"`{header(stmt_of(w.node))}` in {w.fi.qualname} writes to `{e.tag[0][1]}`, whose origin could not be determined", where(w.fi, w.node))
+        if not mine and not unknown:
             res.add("C15.R2", f"{r.relpath}::{r.qualname}::no long-lived write", True, f"nothing reachable from {r.qualname} writes to its receiver, its arguments or objects reachable from them", where(r, r.node), kind="effect")
-    # the reviewed exception must be idempotent
-    rule = repo.cls(RULE, "Rule")
-    ca = repo.lookup_method(rule, "_convert_aliases")
-    if reviewed:
-        ok = ca is not None
-        detail = ""
-        if ok:
-            cfgp = ca.param_names[1]
-            rets = [s for s in own_nodes(ca.node) if isinstance(s, ast.Return)]
-            same = [s for s in rets if dotted(s.value) == cfgp]
-            rep = [s for s in rets if isinstance(s.value, ast.Call) and dotted(s.value.func) == "replace"]
-            ok = len(same) == 1 and len(rep) == 1 and len(rets) == 2
-            if ok:
-                kw = {k.arg: k.value for k in rep[0].value.keywords}
-                ok = isinstance(kw.get("rule_object_anything"), ast.Constant) and kw["rule_object_anything"].value is False
-                ok = ok and implies(conds_formula(conds(ca, same[0])), f_not(atom(f"bool({cfgp}.rule_object_anything)")))
-                ok = ok and not [w for w in E.writes(ca) if w.root_kind in ("param", "self", "classvar", "global")]
-            detail = "the alias rewrite returns its argument unchanged unless the alias flag is set, and clears the flag in a new object: applying it twice equals applying it once" if ok else "Rule._convert_aliases is not idempotent (must return the configuration unchanged when the alias flag is clear, and clear the flag in a new object otherwise)"
-        for w in reviewed:
-            res.add("C15.R2", repo.key(w.fi, stmt_of(w.node)) + " [reviewed: idempotent rewrite]", ok, detail, where(w.fi, w.node), kind="effect")
-    res.analysed["evaluation_reachable_functions"] = len(reach)
-    res.analysed["evaluation_local_classes"] = sorted(c.rsplit(".", 1)[-1] for c in ctor_sites if evaluation_local(c))
-
-
-def _argument_for(g: FuncInfo, call: ast.Call, what: str) -> ast.expr | None:
-    """Argument expression of `call` bound to parameter / receiver `what` of callee g."""
-    if what == "self":
-        if isinstance(call.func, ast.Attribute):
-            return call.func.value
-        return None
-    params = g.param_names
-    bound = g.cls is not None and g.outer is None and not g.is_staticmethod
-    if what not in params:
-        return None
-    idx = params.index(what) - (1 if bound else 0)
-    for k in call.keywords:
-        if k.arg == what:
-            return k.value
-    if 0 <= idx < len(call.args):
-        return call.args[idx]
-    return None
-
-
-def _expr_root(f: FuncInfo, e: ast.expr) -> tuple[str, str] | None:
-    from core.effects import _root_and_path
-
-    T = None
-    root, _path = _root_and_path(e)
-    if isinstance(root, ast.Name):
-        name = root.id
-        bound = f.cls is not None and f.outer is None and not f.is_staticmethod
-        if bound and f.params and name == f.params[0].arg:
-            return ("self", "self")
-        if name in f.param_names:
-            return ("param", name)
-        E = Effects(_REPO[0], types_of(_REPO[0]))
-        if E.fresh_local(f, name):
-            return ("fresh", name)
-        return ("nonfresh-local", name)
-    if isinstance(root, ast.Call):
-        E = Effects(_REPO[0], types_of(_REPO[0]))
-        return ("fresh", "") if E.fresh_expr(f, root) else ("nonfresh-local", "")
-    if isinstance(root, (ast.List, ast.Set, ast.Dict, ast.ListComp, ast.SetComp, ast.DictComp, ast.Constant, ast.JoinedStr, ast.Tuple)):
-        return ("fresh", "")
-    return None
-
-
-_REPO: list = [None]
-
-
-def _origin(f: FuncInfo, local: str) -> str | None:
-    """Parameter (or 'self') a non-fresh local is derived from: loop variable over / attribute of / alias of it."""
-    seen = set()
-    name = local
-    for _ in range(6):
-        if name in seen:
-            return None
-        seen.add(name)
-        src = None
-        for n in own_nodes(f.node):
-            if isinstance(n, (ast.For, ast.AsyncFor)) and any(isinstance(x, ast.Name) and x.id == name for x in ast.walk(n.target)):
-                src = n.iter
-            elif isinstance(n, ast.comprehension) and any(isinstance(x, ast.Name) and x.id == name for x in ast.walk(n.target)):
-                src = n.iter
-            elif isinstance(n, ast.Assign) and any(isinstance(t, ast.Name) and t.id == name for t in n.targets):
-                src = n.value
-        if src is None:
-            return None
-        from core.effects import _root_and_path
-
-        root, _p = _root_and_path(src)
-        while isinstance(root, ast.Call) and isinstance(root.func, ast.Attribute):
-            root, _p = _root_and_path(root.func.value)
-        if isinstance(root, ast.Name):
-            bound = f.cls is not None and f.outer is None and not f.is_staticmethod
-            if bound and f.params and root.id == f.params[0].arg:
-                return "self"
-            if root.id in f.param_names:
-                return root.id
-            name = root.id
+    res.add("C15.R2", "evaluation region::writes to fresh objects", True, f"{S.fresh_writes} writes in {len(reach)} reachable functions go to objects created during the evaluation", kind="effect")
+    for rw in rewrites:
+        fi0, node0 = rw.stores[0]
+        key = repo.key(fi0, stmt_of(node0)) + f" [reviewed: idempotent rewrite, via {rw.root.qualname}]"
+        if rw.verdict == "undecided":
+            res.undecide("C15.R2", key, f"{rw.root.qualname} stores a value computed from `self.{rw.field}` back into it, and idempotence of that rewrite cannot be established: {rw.detail}", where(fi0, node0))
         else:
-            return None
-    return None
+            ok = rw.verdict == "idempotent"
+            res.add("C15.R2", key, ok, rw.detail if ok else f"the rewrite of `self.{rw.field}` in {rw.root.qualname} is not idempotent: {rw.detail}", where(fi0, node0), kind="effect")
+    res.analysed["evaluation_reachable_functions"] = len(reach)
+    res.analysed["effect_rounds"] = S.rounds
+    # positive fixture (the expected number of findings on the real tree is zero): every textbook way of writing to a long-lived
+    # object must be seen, every textbook way of working on fresh objects must be accepted
+    import shutil
+
+    tmp, frepo = _fixture_repo("ownership.py")
+    try:
+        FT = types_of(frepo)
+        FR = Roots(frepo, FT)
+        FS = EffectSummaries(frepo, FT, FR, frepo.all_functions())
+        wrong = []
+        seen_bad = seen_ok = 0
+        for f in frepo.all_functions():
+            if f.cls is None or f.cls.name != "Holder" or not (f.name.startswith("bad_") or f.name.startswith("ok_")):
+                continue
+            mine = [e for e in FS.of(f) if e.tag[0][0] in ("self", "param") and e.tag[0][1] == f.fq]
+            if f.name.startswith("bad_"):
+                seen_bad += 1
+                if not mine:
+                    wrong.append(f"{f.name}: write to a long-lived object not seen")
+            else:
+                seen_ok += 1
+                if mine:
+                    wrong.append(f"{f.name}: `{mine[0].write.text}` taken for a write to a long-lived object")
+        if wrong or seen_bad < 15 or seen_ok < 8:
+            raise AnalysisError(f"C15.R2 fixture: ownership analysis does not classify the fixture as expected ({'; '.join(wrong) or 'fixture methods not found'})")
+        res.add("C15.R2", "fixture::engine/rules/c15_fixtures/ownership.py", True, f"positive fixture recognised: {seen_bad} ways of writing to long-lived objects flagged, {seen_ok} ways of working on fresh objects accepted", nontrivial=False)
+    finally:
+        shutil.rmtree(tmp, ignore_errors=True)
 
 
 # --------------------------------------------------------------------------- R3
 
+GROWERS = {"add", "update", "append", "extend", "insert", "setdefault", "appendleft"}
+SHRINKERS = {"remove", "discard", "pop", "clear", "difference_update", "intersection_update", "popitem", "popleft", "symmetric_difference_update"}
 
-def run_r3(repo: Repo, res: Result) -> None:
-    T = types_of(repo)
 
-    def set_typed(f: FuncInfo, e: ast.expr) -> bool:
-        return is_set_type(T.expr(f, e))
+TUPLE = "#T"  # marker: the value is (a collection of) tuples whose components carry their own tags as "<position>@<tag>"
 
-    def sources(f: FuncInfo, e: ast.expr):
-        # a list/tuple/iterator made from a set keeps the set's arbitrary order
-        if isinstance(e, ast.Call) and isinstance(e.func, ast.Name) and e.func.id in ("list", "tuple", "iter", "enumerate", "map", "filter", "reversed") and e.args:
-            if any(set_typed(f, a) for a in e.args if not isinstance(a, ast.Starred)):
-                return {"U"}
-        # a set stays a set when it is handed to a parameter annotated Iterable/Sequence: remember its nature
-        if isinstance(e, (ast.Name, ast.Attribute, ast.Call, ast.Set, ast.SetComp)) and set_typed(f, e):
-            return {"S"}
-        return None
 
-    def transfer(f: FuncInfo, call: ast.Call, names, args, recv, kwargs):
-        fn = call.func
-        if isinstance(fn, ast.Name) and fn.id in ("sorted", "set", "frozenset", "len", "any", "all", "sum", "min", "max"):
-            return set()
-        if isinstance(fn, ast.Attribute) and fn.attr in ("add", "update", "discard", "remove", "intersection", "union", "difference"):
-            t = T.expr(f, fn.value)
-            if any(m[0] == "b" and m[1] in ("set", "frozenset") for m in members(t)):
-                return set()  # sets absorb elements in any order
-        return None
+class _OrderFlow(Flow):
+    """Tag flow with position-sensitive tuples and generators (local extension of core/flow.py).
 
-    def post(f: FuncInfo, e: ast.expr, tags):
-        # the tag describes the *order of a collection*: scalars, strings and repo objects do not carry it
-        t = T.expr(f, e)
-        ms = members(t)
-        if ms and all(m[0] in ("cls", "type", "fn") or (m[0] == "b" and m[1] in ("str", "int", "bool", "none", "float", "set", "frozenset")) for m in ms):
-            keep_s = any(m[0] == "b" and m[1] in ("set", "frozenset") for m in ms)
-            return frozenset(x for x in tags if x != "U" and (x != "S" or keep_s))
-        return tags
+    `(subject, verb, sorted(objects))` collected in a loop over a set: the *sequence of tuples* is in set order (tag U on the
+    sequence), the third component stays the sorted list it is.  Unpacking (`for s, v, objs in parts`, `a, b = helper()`, `t[2]`)
+    hands every component its own tags back; the order of the sequence is not a property of the components."""
 
-    flow = Flow(repo, T, Spec(sources=sources, transfer=transfer, post=post, sort_kills={"U"}, loop_tag="U", unordered_tags=frozenset({"S"}), non_absorbed=frozenset({"S"}), unordered_iter=set_typed, objects_carry=False, opaque={"len", "isinstance", "hasattr", "bool", "any", "all", "sum", "min", "max", "set", "frozenset", "sorted"}))
-    n = 0
-    sinks = 0
-    for f in repo.all_functions():
-        for node in own_nodes(f.node):
-            sink_arg = None
-            what = ""
-            if isinstance(node, ast.Call) and isinstance(node.func, ast.Attribute) and node.func.attr == "join" and len(node.args) == 1:
-                rt = T.expr(f, node.func.value)
-                if any(m == ("b", "str", ()) for m in members(rt)):
-                    sink_arg, what = node.args[0], f"{norm(node.func.value)}.join"
-            elif isinstance(node, ast.FormattedValue):
-                t = T.expr(f, node.value)
-                if any(m[0] == "b" and m[1] in ("set", "frozenset", "list", "tuple", "dict", "seq", "iter") for m in members(t)):
-                    sink_arg, what = node.value, "f-string"
-            elif isinstance(node, ast.Call) and isinstance(node.func, ast.Name) and node.func.id in ("str", "repr") and node.args:
-                t = T.expr(f, node.args[0])
-                if any(m[0] == "b" and m[1] in ("set", "frozenset", "list", "tuple", "dict") for m in members(t)):
-                    sink_arg, what = node.args[0], node.func.id
-            if sink_arg is None:
+    def _expr_inner(self, fi, e, env):
+        if isinstance(e, ast.Tuple) and not isinstance(getattr(e, "ctx", None), ast.Store) and not any(isinstance(x, ast.Starred) for x in e.elts):
+            out = {TUPLE}
+            for i, x in enumerate(e.elts):
+                for t in self._expr(fi, x, env):
+                    out.add(f"{i}@{t}")
+            return frozenset(out)
+        if isinstance(e, ast.Subscript) and isinstance(e.slice, ast.Constant) and isinstance(e.slice.value, int) and not isinstance(e.slice.value, bool):
+            base = self._expr(fi, e.value, env)
+            if TUPLE in base:
+                pre = f"{e.slice.value}@"
+                return frozenset(t[len(pre):] for t in base if t.startswith(pre))
+            return self._it(base)
+        if isinstance(e, ast.Yield):
+            v = self._expr(fi, e.value, env) if e.value is not None else frozenset()
+            add = self._col(v) - self.spec.non_absorbed
+            if self.spec.loop_tag and self._yield_in_unordered_loop(fi, e):
+                add = add | {self.spec.loop_tag}
+            self._join_into(self.ret_tags, fi.fq, add)
+            return frozenset()
+        if isinstance(e, ast.YieldFrom):
+            self._join_into(self.ret_tags, fi.fq, self._expr(fi, e.value, env))
+            return frozenset()
+        return super()._expr_inner(fi, e, env)
+
+    def _yield_in_unordered_loop(self, fi, node) -> bool:
+        for a in ancestors(node):
+            if a is fi.node:
+                break
+            if isinstance(a, (ast.For, ast.AsyncFor)) and self._iter_unordered(fi, a.iter):
+                return True
+        return False
+
+    def _assign(self, fi, target, v, env, value, weak=False):
+        if isinstance(target, (ast.Tuple, ast.List)) and TUPLE in v and not (isinstance(value, (ast.Tuple, ast.List)) and len(value.elts) == len(target.elts)) and not any(isinstance(x, ast.Starred) for x in target.elts):
+            for i, el in enumerate(target.elts):
+                pre = f"{i}@"
+                self._assign(fi, el, frozenset(t[len(pre):] for t in v if t.startswith(pre)), env, None, weak)
+            return
+        super()._assign(fi, target, v, env, value, weak)
+
+
+class Order:
+    """Which collections carry the arbitrary iteration order of a set (tag flow), shared by the sink rule and the loop rule."""
+
+    def __init__(self, repo: Repo) -> None:
+        self.repo = repo
+        T = self.T = types_of(repo)
+
+        memo: dict[int, bool] = {}
+
+        def set_typed(f: FuncInfo, e: ast.expr) -> bool:
+            k = id(e)
+            if k not in memo:
+                try:
+                    memo[k] = is_set_type(T.expr(f, e))
+                except Exception:  # noqa: BLE001
+                    memo[k] = False
+            return memo[k]
+
+        self.set_typed = set_typed
+
+        def sources(f: FuncInfo, e: ast.expr):
+            # a list/tuple/iterator made from a set keeps the set's arbitrary order
+            if isinstance(e, ast.Call) and isinstance(e.func, ast.Name) and e.func.id in ("list", "tuple", "iter", "enumerate", "map", "filter", "reversed") and e.args:
+                if any(set_typed(f, a) for a in e.args if not isinstance(a, ast.Starred)):
+                    return {"U"}
+            # a set stays a set when it is handed to a parameter annotated Iterable/Sequence: remember its nature
+            if isinstance(e, (ast.Name, ast.Attribute, ast.Call, ast.Set, ast.SetComp)) and set_typed(f, e):
+                return {"S"}
+            # a sequence handed to the public API arrives in the order in which the caller happened to list its items (tag L)
+            if isinstance(e, ast.Name) and listed_param(f, e.id):
+                return {"L"}
+            return None
+
+        lp_memo: dict[tuple[str, str], bool] = {}
+
+        def listed_param(f: FuncInfo, name: str) -> bool:
+            k = (f.fq, name)
+            if k not in lp_memo:
+                ok = False
+                if not isinstance(f.node, ast.Lambda) and f.outer is None and name in f.param_names and name != Roots.self_name(f):
+                    public = (not f.name.startswith("_") or f.name in ("__init__", "__call__")) and (f.cls is None or not f.cls.name.startswith("_"))
+                    if public:
+                        try:
+                            t = T.param_type(f, name)
+                        except Exception:  # noqa: BLE001
+                            t = ("unknown",)
+                        ok = any(m[0] == "b" and m[1] in ("list", "seq", "tuple", "iter") for m in members(t))
+                lp_memo[k] = ok
+            return lp_memo[k]
+
+        def transfer(f: FuncInfo, call: ast.Call, names, args, recv, kwargs):
+            fn = call.func
+            if isinstance(fn, ast.Name) and fn.id in ("sorted", "set", "frozenset", "len", "any", "all", "sum", "min", "max"):
+                return set()
+            if isinstance(fn, ast.Name) and fn.id in ("list", "tuple", "iter", "enumerate", "reversed", "map", "filter", "zip") and not names:
+                # a sequence made from an unordered collection is an unordered *sequence* (tag U), no longer "a set" (tag S)
+                tags = set()
+                for a in [*args, *kwargs.values()]:
+                    tags |= set(a)
+                unordered = bool(tags & {"S", "U"}) or any(set_typed(f, a) for a in call.args if not isinstance(a, ast.Starred))
+                return {"U"} if unordered else set()
+            if isinstance(fn, ast.Attribute) and fn.attr in ("add", "update", "discard", "remove", "intersection", "union", "difference"):
+                t = T.expr(f, fn.value)
+                if any(m[0] == "b" and m[1] in ("set", "frozenset") for m in members(t)):
+                    return set()  # sets absorb elements in any order
+            return None
+
+        gen_memo: dict[str, bool] = {}
+
+        def calls_generator(f: FuncInfo, e: ast.expr) -> bool:
+            """A call of a generator function: the resolver types it by its (absent) return statements, it is an iterator."""
+            if not isinstance(e, ast.Call):
+                return False
+            try:
+                cs, _how = T.callees(f, e, byname_fallback=False)
+            except Exception:  # noqa: BLE001
+                return False
+            for g in cs:
+                if g.fq not in gen_memo:
+                    gen_memo[g.fq] = not isinstance(g.node, ast.Lambda) and any(isinstance(n, (ast.Yield, ast.YieldFrom)) for n in own_nodes(g.node))
+                if gen_memo[g.fq]:
+                    return True
+            return False
+
+        def post(f: FuncInfo, e: ast.expr, tags):
+            # the tag describes the *order of a collection*: scalars, strings and repo objects do not carry it
+            if calls_generator(f, e):
+                return tags
+            t = T.expr(f, e)
+            ms = members(t)
+            if ms and all(m[0] in ("cls", "type", "fn") or (m[0] == "b" and m[1] in ("str", "int", "bool", "none", "float", "set", "frozenset")) for m in ms):
+                keep_s = any(m[0] == "b" and m[1] in ("set", "frozenset") for m in ms)
+                return frozenset(x for x in tags if x not in ("U", "L") and (x != "S" or keep_s))
+            return tags
+
+        self.flow = _OrderFlow(repo, T, Spec(sources=sources, transfer=transfer, post=post, sort_kills={"U", "S"}, loop_tag="U", unordered_tags=frozenset({"S"}), non_absorbed=frozenset({"S"}), unordered_iter=set_typed, objects_carry=False, opaque={"len", "isinstance", "hasattr", "bool", "any", "all", "sum", "min", "max", "set", "frozenset", "sorted"}))
+
+    def unordered(self, f: FuncInfo, e: ast.expr) -> bool:
+        """`e` (an expression of f, or of a view of f) is iterated in an order that depends on the hash seed."""
+        if self.set_typed(f, e):
+            return True
+        src = getattr(e, "_src", None)
+        orig = src[1] if src is not None else e
+        return bool({"U", "S"} & self.flow.tags(orig))
+
+    def listed(self, f: FuncInfo, e: ast.expr) -> bool:
+        """`e` holds items in the order in which a caller of the public API listed them."""
+        src = getattr(e, "_src", None)
+        orig = src[1] if src is not None else e
+        return "L" in self.flow.tags(orig)
+
+    # ------------------------------------------------------------------ sinks
+    def sinks(self) -> list[dict]:
+        """Every place where a collection is turned into text, with the verdict of the flow analysis."""
+        T, repo = self.T, self.repo
+        out = []
+        for f in repo.all_functions():
+            for node in own_nodes(f.node):
+                sink_arg = None
+                what = ""
+                if isinstance(node, ast.Call) and isinstance(node.func, ast.Attribute) and node.func.attr == "join" and len(node.args) == 1:
+                    rt = T.expr(f, node.func.value)
+                    if any(m == ("b", "str", ()) for m in members(rt)):
+                        sink_arg, what = node.args[0], f"{norm(node.func.value)}.join"
+                elif isinstance(node, ast.FormattedValue):
+                    t = T.expr(f, node.value)
+                    if any(m[0] == "b" and m[1] in ("set", "frozenset", "list", "tuple", "dict", "seq", "iter") for m in members(t)):
+                        sink_arg, what = node.value, "f-string"
+                elif isinstance(node, ast.Call) and isinstance(node.func, ast.Name) and node.func.id in ("str", "repr") and node.args:
+                    t = T.expr(f, node.args[0])
+                    if any(m[0] == "b" and m[1] in ("set", "frozenset", "list", "tuple", "dict") for m in members(t)):
+                        sink_arg, what = node.args[0], node.func.id
+                if sink_arg is None:
+                    continue
+                direct_set = self.set_typed(f, sink_arg) or (isinstance(sink_arg, (ast.GeneratorExp, ast.ListComp)) and any(self.set_typed(f, g.iter) for g in sink_arg.generators))
+                tagged = bool({"U", "S"} & self.flow.tags(sink_arg))
+                out.append({"f": f, "node": node, "arg": sink_arg, "what": what, "ok": not direct_set and not tagged, "direct": direct_set})
+        return out
+
+    # ------------------------------------------------------------------ loops
+    def loops(self) -> list[dict]:
+        """Loops over an unordered collection and the containers their bodies both grow and shrink (helpers expanded)."""
+        T, repo = self.T, self.repo
+        out = []
+        for f in repo.all_functions():
+            if isinstance(f.node, ast.Lambda) or not any(isinstance(n, (ast.For, ast.AsyncFor)) and self.unordered(f, n.iter) for n in own_nodes(f.node)):
                 continue
-            sinks += 1
-            direct_set = set_typed(f, sink_arg) or (isinstance(sink_arg, (ast.GeneratorExp, ast.ListComp)) and any(set_typed(f, g.iter) for g in sink_arg.generators))
-            tagged = bool({"U", "S"} & flow.tags(sink_arg))
-            ok = not direct_set and not tagged
-            n += 1
-            res.add(
-                "C15.R3",
-                repo.key(f, stmt_of(node)) + f" [{what}({norm(sink_arg, 60)})]",
-                ok,
-                "text built from an ordered (sorted or list-ordered) collection" if ok else f"`{norm(sink_arg, 80)}` reaches text through {what} in set-iteration order ({'a set is joined directly' if direct_set else 'the collection was filled while iterating a set and never sorted'}): the message depends on PYTHONHASHSEED",
-                where(f, node),
-                kind="flow",
-            )
-    res.floor("C15.R3", 8, n)
+            v = inline_view(repo, f, T)
+            for lp in own_nodes(v.node):
+                if not isinstance(lp, (ast.For, ast.AsyncFor)):
+                    continue
+                src = getattr(lp, "_src", None)
+                if src is not None and src[0] is not f and src[0] != f:
+                    continue  # a loop of an expanded helper: judged in the helper itself
+                if not self.unordered(v, lp.iter):
+                    continue
+                grown: dict[str, ast.AST] = {}
+                shrunk: dict[str, ast.AST] = {}
+                for st in lp.body:
+                    for c in ast.walk(st):
+                        if isinstance(c, ast.Call) and isinstance(c.func, ast.Attribute):
+                            recv = dotted(c.func.value)
+                            if not recv:
+                                continue
+                            if c.func.attr in GROWERS:
+                                grown.setdefault(recv, c)
+                            elif c.func.attr in SHRINKERS:
+                                shrunk.setdefault(recv, c)
+                        elif isinstance(c, ast.AugAssign):
+                            recv = dotted(c.target)
+                            if recv and isinstance(c.op, (ast.Add, ast.BitOr)):
+                                grown.setdefault(recv, c)
+                            elif recv and isinstance(c.op, (ast.Sub, ast.BitAnd)):
+                                shrunk.setdefault(recv, c)
+                        elif isinstance(c, ast.Delete):
+                            for t in c.targets:
+                                if isinstance(t, ast.Subscript) and dotted(t.value):
+                                    shrunk.setdefault(dotted(t.value), c)
+                        elif isinstance(c, ast.Assign):
+                            for t in c.targets:
+                                if isinstance(t, ast.Subscript) and dotted(t.value):
+                                    grown.setdefault(dotted(t.value), c)
+                # a container created anew in every iteration cannot carry anything from one element to the next
+                rebound = set()
+                for st in lp.body:
+                    for n in ast.walk(st):
+                        if isinstance(n, (ast.Assign, ast.AnnAssign)) and getattr(n, "value", None) is not None:
+                            for t in (n.targets if isinstance(n, ast.Assign) else [n.target]):
+                                rebound |= {x.id for x in ast.walk(t) if isinstance(x, ast.Name) and isinstance(x.ctx, ast.Store)}
+                both = sorted(r for r in set(grown) & set(shrunk) if r.split(".")[0] not in rebound)
+                orig = src[1] if src is not None else lp
+                out.append({"f": f, "loop": orig, "iter": lp.iter, "both": both, "grown": grown, "shrunk": shrunk})
+        return out
+
+
+def _fixture_repo(name: str):
+    """A scratch repository that consists of one fixture file (positive examples for rules whose expected count is zero)."""
+    from pathlib import Path
+    import shutil, tempfile
+
+    fx = Path(__file__).resolve().parent / "c15_fixtures" / name
+    tmp = Path(tempfile.mkdtemp(prefix="pta-fixture-"))
+    (tmp / "src" / "pytestarch").mkdir(parents=True)
+    shutil.copy(fx, tmp / "src" / "pytestarch" / f"fixture_{name}")
+    return tmp, Repo(tmp)
+
+
+def run_r3(repo: Repo, res: Result, order: "Order | None" = None) -> None:
+    order = order or Order(repo)
+    n = 0
+    for s in order.sinks():
+        f, node, sink_arg, what, ok = s["f"], s["node"], s["arg"], s["what"], s["ok"]
+        n += 1
+        res.add(
+            "C15.R3",
+            repo.key(f, stmt_of(node)) + f" [{what}({norm(sink_arg, 60)})]",
+            ok,
+            "text built from an ordered (sorted or list-ordered) collection" if ok else f"`{norm(sink_arg, 80)}` reaches text through {what} in set-iteration order ({'a set is joined directly' if s['direct'] else 'the collection was filled while iterating a set and never sorted'}): the message depends on PYTHONHASHSEED",
+            where(f, node),
+            kind="flow",
+        )
+    res.floor("C15.R3", 4, n)
     # grow-and-shrink of one container inside a loop over an unordered collection
     k = 0
-    for f in repo.all_functions():
-        for lp in own_nodes(f.node):
-            if not isinstance(lp, (ast.For, ast.AsyncFor)) or not set_typed(f, lp.iter):
-                continue
-            grown: dict[str, ast.AST] = {}
-            shrunk: dict[str, ast.AST] = {}
-            for c in ast.walk(lp):
-                if isinstance(c, ast.Call) and isinstance(c.func, ast.Attribute):
-                    recv = dotted(c.func.value)
-                    if not recv:
-                        continue
-                    if c.func.attr in ("add", "update", "append", "extend", "insert", "setdefault"):
-                        grown.setdefault(recv, c)
-                    elif c.func.attr in ("remove", "discard", "pop", "clear", "difference_update", "intersection_update"):
-                        shrunk.setdefault(recv, c)
-            k += 1
-            both = sorted(set(grown) & set(shrunk))
-            res.add(
-                "C15.R3",
-                repo.key(f, lp) + " [order-independent loop body]",
-                not both,
-                "loop over a set only grows (or only shrinks) each container: the result does not depend on iteration order" if not both else f"`{both[0]}` is both grown (`{norm(grown[both[0]], 60)}`) and shrunk (`{norm(shrunk[both[0]], 60)}`) inside one loop over the set `{norm(lp.iter)}`: the final content depends on the set's iteration order (hash seed)",
-                where(f, lp),
-                kind="structural",
-            )
+    for l in order.loops():
+        f, lp, both, grown, shrunk = l["f"], l["loop"], l["both"], l["grown"], l["shrunk"]
+        k += 1
+        res.add(
+            "C15.R3",
+            repo.key(f, lp) + " [order-independent loop body]",
+            not both,
+            "loop over a set only grows (or only shrinks) each container: the result does not depend on iteration order" if not both else f"`{both[0]}` is both grown (`{norm(grown[both[0]], 60)}`) and shrunk (`{norm(shrunk[both[0]], 60)}`) inside one loop over the set `{norm(l['iter'])}`: the final content depends on the set's iteration order (hash seed)",
+            where(f, lp),
+            kind="structural",
+        )
     res.floor("C15.R3.loops", 3, k)
-    res.analysed["text_sinks"] = sinks
+    res.analysed["text_sinks"] = n
+    # positive fixture: the same two extractions must flag the textbook cases and accept their repaired forms
+    import shutil
+
+    tmp, frepo = _fixture_repo("unordered.py")
+    try:
+        fo = Order(frepo)
+        bad_sinks = {s["f"].name for s in fo.sinks() if not s["ok"]}
+        good_sinks = {s["f"].name for s in fo.sinks() if s["ok"]} - bad_sinks
+        bad_loops = {l["f"].name for l in fo.loops() if l["both"]}
+        good_loops = {l["f"].name for l in fo.loops() if not l["both"]} - bad_loops
+        want_bad_sinks = {"joined_directly", "joined_after_copy", "joined_from_loop", "joined_through_helper", "joined_after_copy_of_iterable", "joined_unsorted_inside_tuple", "joined_unsorted_inside_yielded_tuple", "joined_from_generator_over_set"}
+        want_bad_loops = {"grow_and_shrink", "grow_and_shrink_through_helper"}
+        if bad_sinks != want_bad_sinks or not {"joined_sorted", "joined_after_inplace_sort", "joined_sorted_inside_tuple", "joined_sorted_inside_yielded_tuple"} <= good_sinks:
+            raise AnalysisError(f"C15.R3 fixture: unordered text sinks not recognised exactly (flagged {sorted(bad_sinks)}, want {sorted(want_bad_sinks)}; accepted {sorted(good_sinks)})")
+        if bad_loops != want_bad_loops or not {"two_passes"} <= good_loops or "ordered_pass" in bad_loops:
+            raise AnalysisError(f"C15.R3 fixture: order-dependent loop bodies not recognised exactly (flagged {sorted(bad_loops)}, want {sorted(want_bad_loops)}; accepted {sorted(good_loops)})")
+        res.add("C15.R3", "fixture::engine/rules/c15_fixtures/unordered.py", True, f"positive fixture recognised: sinks {sorted(bad_sinks)}, loops {sorted(bad_loops)}; repaired forms accepted", nontrivial=False)
+    finally:
+        shutil.rmtree(tmp, ignore_errors=True)
 
 
 # --------------------------------------------------------------------------- R4
 
+CACHE_DECORATORS = {"lru_cache", "cache", "cached_property", "memoize", "memoized"}
+_IMMUTABLE_KINDS = {"str", "int", "bool", "none", "float", "bytes", "ellipsis"}
 
-def shared_state_writes(repo: Repo) -> list[Write]:
+
+def _immutable_type(t) -> bool | None:
+    """True / False, None when the annotation is missing or unresolved."""
+    ms = members(t)
+    if not ms or any(m == ("unknown",) for m in ms):
+        return None
+    for m in ms:
+        if m[0] == "b" and m[1] in _IMMUTABLE_KINDS:
+            continue
+        if m[0] == "b" and m[1] in ("tuple", "frozenset"):
+            inner = [_immutable_type(x) for x in m[2]] if len(m) > 2 else []
+            if all(x is True for x in inner):
+                continue
+            return False if any(x is False for x in inner) else None
+        if m[0] == "lib" and m[1] in ("pathlib.Path", "re.Pattern"):
+            continue
+        return False
+    return True
+
+
+def shared_state_writes(repo: Repo) -> list[dict]:
+    """Writes, inside functions, to objects that outlive the call and belong to no instance: module-level names, class-level
+    attributes (also through `self.` / `cls.` / a local alias), variables of an enclosing function that survive in a returned closure."""
     T = types_of(repo)
+    R = _roots(repo)
     E = Effects(repo, T)
+    out: list[dict] = []
+    seen: set[int] = set()
+    for f in repo.all_functions():
+        for w in R.writes(f):
+            for r, _l in R.targets(w):
+                if r[0] == "global" and id(w.node) not in seen:
+                    seen.add(id(w.node))
+                    kind_ = "classvar" if r[1] in repo.classes or r[1].rsplit(".", 1)[0] in repo.classes else "global"
+                    out.append({"f": f, "node": w.node, "kind": kind_, "name": r[1]})
+        for w in E.writes(f):
+            if w.root_kind in ("classvar", "global") and id(w.node) not in seen:
+                seen.add(id(w.node))
+                out.append({"f": f, "node": w.node, "kind": w.root_kind, "name": f"{w.root}.{w.field}".rstrip(".")})
+        # closure state: a nested function that is handed out writes to a variable of the function that created it
+        if f.outer is not None and not isinstance(f.node, ast.Lambda):
+            outer = f.outer
+            escapes = any(isinstance(n, ast.Return) and n.value is not None and any(isinstance(x, ast.Name) and x.id == f.name for x in ast.walk(n.value)) for n in own_nodes(outer.node))
+            if escapes:
+                R._scan(outer)
+                R._scan(f)
+                for w in R.writes(f):
+                    from .c15_roots import root_name
+
+                    root, _p = root_name(w.recv)
+                    if isinstance(root, ast.Name) and root.id not in f.param_names and root.id not in R._bindings[f.fq] and (root.id in R._bindings[outer.fq]) and id(w.node) not in seen:
+                        seen.add(id(w.node))
+                        out.append({"f": f, "node": w.node, "kind": "closure", "name": root.id})
+    return out
+
+
+def memoised(repo: Repo) -> list[dict]:
+    """Functions under a caching decorator; `harmless` when the cache cannot be observed: a function of immutable arguments only,
+    returning an immutable value, that is not bound to an instance, reads no module / class level state and writes nothing."""
+    T = types_of(repo)
+    R = _roots(repo)
     out = []
     for f in repo.all_functions():
-        for w in E.writes(f):
-            if w.root_kind in ("classvar", "global"):
-                out.append(w)
+        decos = [d for d in f.decorators if d in CACHE_DECORATORS]
+        if not decos or isinstance(f.node, ast.Lambda):
+            continue
+        why = []
+        if Roots.self_name(f) is not None:
+            why.append("it is bound to an instance / class whose state it can read")
+        for p in f.params:
+            if p.arg == Roots.self_name(f):
+                continue
+            it = _immutable_type(T.param_type(f, p.arg))
+            if it is not True:
+                why.append(f"parameter `{p.arg}` is {'mutable' if it is False else 'of unknown type'}: results computed for one object are served for another state of it")
+        rt = _immutable_type(T.return_type(f))
+        if rt is not True:
+            why.append("the cached result is a mutable object shared between all callers" if rt is False else "the type of the cached result is unknown")
+        for n in own_nodes(f.node):
+            if isinstance(n, ast.Name) and isinstance(n.ctx, ast.Load):
+                v = R.value(f, n)
+                if any(r[0] == "global" for r in v.roots):
+                    why.append(f"it reads module-level state `{n.id}`")
+                    break
+        if any(not all(r == FRESH for r, _l in R.targets(w)) for w in R.writes(f)):
+            why.append("it writes to objects it did not create")
+        out.append({"f": f, "decorators": decos, "harmless": not why, "why": why})
     return out
 
 
 def run_r4(repo: Repo, res: Result) -> None:
-    T = types_of(repo)
     ws = shared_state_writes(repo)
     for w in ws:
+        f, node = w["f"], w["node"]
+        what = {"classvar": "class-level", "global": "module-level", "closure": "closure"}[w["kind"]]
         res.add(
             "C15.R4",
-            repo.key(w.fi, stmt_of(w.node)),
+            repo.key(f, stmt_of(node)),
             False,
-            f"`{header(stmt_of(w.node))}` in {w.fi.qualname} writes {'class-level' if w.root_kind == 'classvar' else 'module-level'} state `{w.root}.{w.field}` shared by all instances: results of one scan / evaluation leak into the next one in the same process",
-            where(w.fi, w.node),
+            f"`{header(stmt_of(node))}` in {f.qualname} writes {what} state `{w['name']}` that outlives the call and is shared by all instances / calls: results of one scan / evaluation leak into the next one in the same process",
+            where(f, node),
             kind="effect",
         )
     # caching decorators keep hidden state as well
-    cached = [f for f in repo.all_functions() if any(d in ("lru_cache", "cache", "cached_property") for d in f.decorators)]
-    for f in cached:
-        E = Effects(repo, T)
-        mutable_ret = not isinstance(f.node, ast.Lambda) and any(isinstance(n, ast.Return) and n.value is not None and kind(T.expr(f, n.value)) in ("set", "list", "dict") for n in own_nodes(f.node))
+    ms = memoised(repo)
+    for m in ms:
+        f = m["f"]
         res.add(
             "C15.R4",
             f"{f.relpath}::{f.qualname}::cache decorator",
-            False,
-            f"{f.qualname} is memoised ({', '.join(f.decorators)}): results computed for one architecture/configuration are served to later calls" + (" and the cached mutable result is shared between callers" if mutable_ret else ""),
+            m["harmless"],
+            f"{f.qualname} is memoised ({', '.join(m['decorators'])}) but is a function of immutable arguments only with an immutable result, reads no shared state and writes nothing: the cache cannot be observed" if m["harmless"] else f"{f.qualname} is memoised ({', '.join(m['decorators'])}): results computed for one architecture / configuration are served to later calls; " + "; ".join(m["why"]),
             where(f, f.node),
             kind="effect",
         )
-    res.add("C15.R4", "src::no shared mutable state written inside functions", not ws and not cached, f"{len(repo.funcs)} functions analysed: none writes class-level or module-level state, none is memoised", kind="effect")
-    # positive fixture: the rule must recognise a class-level cache (expected count on the real tree is zero)
-    from pathlib import Path
-    import shutil, tempfile
+    bad_memo = [m for m in ms if not m["harmless"]]
+    res.add("C15.R4", "src::no shared mutable state written inside functions", not ws and not bad_memo, f"{len(repo.funcs)} functions analysed: none writes class-level, module-level or closure state, none keeps an observable cache", kind="effect")
+    # positive fixture: the rule must recognise the textbook forms (expected count on the real tree is zero)
+    import shutil
 
-    fx = Path(__file__).resolve().parents[1] / "fixtures" / "shared_state.py"
-    tmp = Path(tempfile.mkdtemp(prefix="pta-fixture-"))
+    tmp, frepo = _fixture_repo("shared_state.py")
     try:
-        (tmp / "src" / "pytestarch").mkdir(parents=True)
-        shutil.copy(fx, tmp / "src" / "pytestarch" / "fixture_shared_state.py")
-        frepo = Repo(tmp)
-        got = {(w.fi.qualname, w.root_kind) for w in shared_state_writes(frepo)}
-        want = {("Cache.lookup", "classvar"), ("remember", "global"), ("Cache.via_cls", "classvar")}
-        if not want <= got:
-            raise AnalysisError(f"C15.R4 fixture: shared-state writes not recognised (got {sorted(got)}, want {sorted(want)})")
-        res.add("C15.R4", "fixture::engine/fixtures/shared_state.py", True, f"positive fixture recognised: {sorted(got)}", nontrivial=False)
+        got = {(w["f"].qualname, w["kind"]) for w in shared_state_writes(frepo)}
+        want = {("Cache.lookup", "classvar"), ("Cache.lookup_through_alias", "classvar"), ("remember", "global"), ("remember_through_alias", "global"), ("Cache.via_cls", "classvar"), ("make_counter.count", "closure")}
+        clean = {"Cache.own_only", "Cache.__init__", "local_only", "local_only.note"}
+        if got != want or any(q in clean for q, _k in got):
+            raise AnalysisError(f"C15.R4 fixture: shared-state writes not recognised exactly (got {sorted(got)}, want {sorted(want)})")
+        memo = {m["f"].qualname: m["harmless"] for m in memoised(frepo)}
+        want_memo = {"pure_text": True, "shared_result": False, "state_dependent": False, "of_mutable_argument": False}
+        if memo != want_memo:
+            raise AnalysisError(f"C15.R4 fixture: memoised functions not classified as expected (got {memo}, want {want_memo})")
+        res.add("C15.R4", "fixture::engine/rules/c15_fixtures/shared_state.py", True, f"positive fixture recognised: {sorted(got)}; memoised: {memo}", nontrivial=False)
+    finally:
+        shutil.rmtree(tmp, ignore_errors=True)
+
+
+# --------------------------------------------------------------------------- R5
+
+
+def selections(repo: Repo, order: "Order | None" = None) -> list[dict]:
+    """Loops whose keep / drop decisions read state accumulated by earlier iterations (c15_selection.py), with the nature of the
+    collection they run over: unordered (set / hash order), listing (directory enumeration), listed (any other sequence)."""
+    from . import c15_selection as sel
+
+    T = types_of(repo)
+    order = order or Order(repo)
+    out = []
+    n_loops = 0
+    for f in repo.all_functions():
+        if isinstance(f.node, ast.Lambda) or not any(isinstance(n, (ast.For, ast.AsyncFor, ast.While)) for n in own_nodes(f.node)):
+            continue
+        v = inline_view(repo, f, T)
+        for info in sel.loops_of(v):
+            src = getattr(info.loop, "_src", None)
+            if src is not None and src[0] != f:
+                continue  # a loop of an expanded helper: judged in the helper itself
+            n_loops += 1
+            findings = sel.analyse(info)
+            if not findings:
+                continue
+            nature = _order_nature(order, v, info.source)
+            if nature is None:
+                continue  # sorted input, a fixed sequence, or an order that is the function's own business
+            for fd in findings:
+                out.append({"f": f, "loop": src[1] if src is not None else info.loop, "test": fd.test, "container": fd.container, "why": fd.why, "nature": nature, "elems": sorted(info.elems)})
+    return [{"loops": n_loops}, *out]
+
+
+_RANK = {None: 0, "listed": 1, "listing": 2, "unordered": 3}
+
+
+def _order_nature(order: "Order", v: FuncInfo, exprs: list[ast.expr], depth: int = 0, seen: set | None = None) -> str | None:
+    """Why the order of the elements is not part of the contract: 'unordered' (set / hash order), 'listing' (directory enumeration),
+    'listed' (order in which a caller of the public API listed the items); None for a sorted / fixed / internally determined order."""
+    from . import c15_selection as sel
+
+    seen = seen if seen is not None else set()
+    best: str | None = None
+
+    def up(n: str | None) -> None:
+        nonlocal best
+        if _RANK[n] > _RANK[best]:
+            best = n
+
+    for e in exprs:
+        if isinstance(e, ast.Starred):
+            e = e.value
+        if isinstance(e, ast.Call) and isinstance(e.func, ast.Name) and e.func.id == "sorted":
+            continue
+        if isinstance(e, ast.Call) and isinstance(e.func, ast.Attribute) and e.func.attr == "sort":
+            continue
+        if isinstance(e, (ast.List, ast.Tuple)):
+            # a display has the order it is written in; only unpacked parts bring an order of their own
+            for x in e.elts:
+                if isinstance(x, ast.Starred):
+                    up(_order_nature(order, v, [x.value], depth + 1, seen))
+            continue
+        if order.unordered(v, e):
+            up("unordered")
+            continue
+        if isinstance(e, ast.Call) and ((isinstance(e.func, ast.Attribute) and e.func.attr in sel.DIR_LISTING) or (isinstance(e.func, ast.Name) and e.func.id in sel.DIR_LISTING)):
+            up("listing")
+            continue
+        if isinstance(e, ast.Call) and isinstance(e.func, ast.Name) and e.func.id in ("list", "tuple", "iter", "reversed", "enumerate", "zip", "product", "chain", "filter") and depth < 4:
+            up(_order_nature(order, v, [a for a in e.args], depth + 1, seen))
+            continue
+        if isinstance(e, (ast.ListComp, ast.GeneratorExp)) and depth < 4:
+            up(_order_nature(order, v, [g.iter for g in e.generators], depth + 1, seen))
+            continue
+        if isinstance(e, ast.Name) and e.id not in seen and depth < 4 and not isinstance(v.node, ast.Lambda):
+            seen.add(e.id)
+            vals = []
+            sorted_in_place = False
+            for n in own_nodes(v.node):
+                if isinstance(n, (ast.Assign, ast.AnnAssign)) and n.value is not None and any(isinstance(t, ast.Name) and t.id == e.id for t in (n.targets if isinstance(n, ast.Assign) else [n.target])):
+                    vals.append(n.value)
+                elif isinstance(n, ast.Call) and isinstance(n.func, ast.Attribute) and n.func.attr == "sort" and dotted(n.func.value) == e.id:
+                    sorted_in_place = True
+                elif isinstance(n, ast.Call) and isinstance(n.func, ast.Attribute) and n.func.attr in ("append", "extend", "insert") and dotted(n.func.value) == e.id:
+                    vals += list(n.args)
+            if sorted_in_place:
+                continue
+            if vals:
+                up(_order_nature(order, v, vals, depth + 1, seen))
+        if order.listed(v, e):
+            up("listed")
+    return best
+
+
+def run_r5(repo: Repo, res: Result, order: "Order | None" = None) -> None:
+    found = selections(repo, order)
+    n_loops = found[0]["loops"]
+    what = {"unordered": "a set (hash order)", "listing": "a directory listing (enumeration order of the file system)", "listed": "a sequence whose order is the order in which the caller listed its items"}
+    for s in found[1:]:
+        f = s["f"]
+        res.add(
+            "C15.R5",
+            repo.key(f, s["loop"]) + f" [{norm(s['test'], 70)}]",
+            False,
+            f"the loop runs over {what[s['nature']]}, and {s['why']}: the result depends on the order of the elements",
+            where(f, s["test"]),
+            kind="structural",
+        )
+    res.add("C15.R5", "src::order-independent selection", len(found) == 1, f"{n_loops} loops (for / worklist) analysed: no keep-or-drop decision reads what earlier iterations accumulated, other than de-duplication on the element's own identity", kind="structural")
+    res.floor("C15.R5", 20, n_loops)
+    # positive fixture (the expected number of findings on the real tree is zero)
+    import shutil
+
+    tmp, frepo = _fixture_repo("selection.py")
+    try:
+        flagged = {s["f"].name for s in selections(frepo)[1:]}
+        want = {"bad_first_physical_location_wins", "bad_case_insensitive_first_wins", "bad_parents_retained_so_far", "bad_parents_retained_so_far_through_helper", "bad_first_three", "bad_listing_prefix_filter", "bad_flag_loop_over_retained"}
+        if flagged != want:
+            raise AnalysisError(f"C15.R5 fixture: order-dependent selections not recognised exactly (flagged {sorted(flagged)}, want {sorted(want)})")
+        res.add("C15.R5", "fixture::engine/rules/c15_fixtures/selection.py", True, f"positive fixture recognised: {sorted(flagged)}; de-duplication on the element, sorted input, tests against the complete input, grouping and closure idioms accepted", nontrivial=False)
     finally:
         shutil.rmtree(tmp, ignore_errors=True)
 
 
 def run(repo: Repo) -> Result:
-    _REPO[0] = repo
     res = Result("C15")
     res.explanation = (
-        "Decides purity structurally: (R1) the graph is frozen after construction, graph mutators are reachable only from the constructor and all "
-        "nodes exist before import edges are created; (R2) nothing reachable from an evaluation entry point (assert_applies x4, the three "
-        "queries, visualize, modules) writes to its receiver, its arguments or objects derived from them - writes go only to objects created "
-        "during the evaluation; the single reviewed exception (alias rewrite of Rule._configuration) is checked to be idempotent; (R3) no set "
-        "iteration order reaches text (join / f-string / str) without sorted, and no container is grown and shrunk inside one loop over a set; "
-        "(R4) no function writes class-level or module-level state and nothing is memoised. Purity implies history-, re-application- and "
-        "interleaving-independence of verdicts and messages; ordered sinks imply hash-seed independence of texts."
+        "Decides purity structurally: (R1) every graph-holding class freezes its graph at the end of its constructor, nothing modifies a "
+        "graph after construction (mutators reachable only from the constructor) and all modules are nodes before the first import edge is "
+        "created; (R2) nothing reachable from an evaluation entry point (every concrete assert_applies, the query interface get_dependencies / "
+        "any_* / visualize / modules) writes to its receiver, its arguments or objects reachable from them - decided by an ownership analysis "
+        "(fresh / owned / handed-in objects, field- and depth-sensitive, inter-procedural); the single accepted kind of write, a self-rewrite "
+        "of a field of the entry point's receiver (alias rewrite of Rule._configuration), is checked to be idempotent and independent of the "
+        "architecture; (R3) no set iteration order reaches text (join / f-string / str) without sorted, and no container is grown and shrunk "
+        "inside one loop over an unordered collection; (R4) no function writes class-level, module-level or escaping-closure state and no "
+        "observable cache exists; (R5) no loop over a set, a directory listing or a caller-listed sequence decides to keep or drop an element "
+        "by looking at what earlier iterations kept (other than de-duplication on the element itself). Purity implies history-, re-application- and interleaving-independence of verdicts and messages; ordered "
+        "sinks imply hash-seed independence of texts."
     )
-    res.not_decided = "seed/ordering effects inside networkx/matplotlib; list order of `modules` (only set equality is claimed); the deprecated decorator's warnings.simplefilter calls (global library state, observed, outside the property's observables)."
-    res.trusted_base = ["networkx.freeze makes every mutator raise", "engine resolver / call graph (CHA with name-based fallback) and freshness analysis"]
+    res.not_decided = "seed/ordering effects inside networkx/matplotlib; list order of `modules` (only set equality is claimed); dependence of texts on the order in which list arguments were given, other than through sets; the deprecated decorator's warnings.simplefilter calls (global library state, observed, outside the property's observables)."
+    res.trusted_base = ["networkx.freeze makes every mutator raise", "engine resolver / call graph (CHA with name-based fallback)", "ownership analysis of rules/c15_roots.py: flow-insensitive per function, contents of containers kept apart to depth 3, dict keys and values of immutable static type carry no ownership"]
     run_r1(repo, res)
     run_r2(repo, res)
-    run_r3(repo, res)
+    order = Order(repo)
+    run_r3(repo, res, order)
     run_r4(repo, res)
+    run_r5(repo, res, order)
     for f in repo.all_functions():
         for c in calls_in(f.node):
             if dotted(c.func) == "warnings.simplefilter":
